@@ -1,4 +1,6 @@
-(* C06 - lemmas about LPOpsModel. *)
+(* C06 - lemmas about LPOpsModel: the row file and the column file always mirror each other (induction over
+   operation lists), every call commutes with the abstraction to a dense LP, the renumbering after removals, the
+   invalidation of cached solutions, and the sense of the LP. *)
 From Coq Require Import ZArith List Bool Arith Lia.
 From SV Require Import Dbl LPOpsModel.
 Import ListNotations.
@@ -11,3 +13,1728 @@ Proof.
   try (unfold step; destruct (apply s _); simpl; auto; fail).
   simpl. auto.
 Qed.
+
+(* ---------- lists ---------- *)
+Lemma upd_length {A} k (f : A -> A) l : length (upd k f l) = length l.
+Proof. revert k; induction l as [|x t IH]; intros [|k]; simpl; auto. Qed.
+
+Lemma nth_upd_eq {A} k (f : A -> A) l d : k < length l -> nth k (upd k f l) d = f (nth k l d).
+Proof. revert k; induction l as [|x t IH]; intros [|k] H; simpl in *; try lia; auto. apply IH; lia. Qed.
+
+Lemma nth_upd_neq {A} k j (f : A -> A) l d : k <> j -> nth j (upd k f l) d = nth j l d.
+Proof. revert k j; induction l as [|x t IH]; intros [|k] [|j] H; simpl; auto; try lia. Qed.
+
+Lemma upd_oob {A} k (f : A -> A) l : length l <= k -> upd k f l = l.
+Proof. revert k; induction l as [|x t IH]; intros [|k] H; simpl in *; auto; try lia. f_equal. apply IH; lia. Qed.
+
+Lemma In_upd {A} k (f : A -> A) l x : In x (upd k f l) -> In x l \/ exists y, In y l /\ x = f y.
+Proof.
+  revert k; induction l as [|a t IH]; intros [|k] H; simpl in *; auto.
+  - destruct H as [H|H]; [right; exists a; auto | auto].
+  - destruct H as [H|H]; auto. destruct (IH _ H) as [H1|[y [H1 H2]]]; auto. right; exists y; auto.
+Qed.
+
+Lemma nth_In_or_default {A} (l : list A) k d : k < length l -> In (nth k l d) l.
+Proof. apply nth_In. Qed.
+
+Lemma nth_nil_oob (F : file) k : length F <= k -> nth k F [] = [].
+Proof. intros; apply nth_overflow; auto. Qed.
+
+Lemma setn_length {A} k (x : A) l : length (setn k x l) = length l.
+Proof. apply upd_length. Qed.
+
+(* ---------- sparse vectors ---------- *)
+Definition idx (v : svec) := map fst v.
+
+Lemma In_idx i x (v : svec) : In (i, x) v -> In i (idx v).
+Proof. intros H. apply (in_map fst) in H. exact H. Qed.
+
+Lemma idx_In i (v : svec) : In i (idx v) -> exists x, In (i, x) v.
+Proof. unfold idx. rewrite in_map_iff. intros [[j x] [H1 H2]]. simpl in H1; subst. eauto. Qed.
+
+Lemma In_sdel i j x v : In (j, x) (sdel i v) <-> j <> i /\ In (j, x) v.
+Proof.
+  unfold sdel. rewrite filter_In. simpl. rewrite negb_true_iff, Nat.eqb_neq. tauto.
+Qed.
+
+Lemma idx_sdel i j v : In j (idx (sdel i v)) <-> j <> i /\ In j (idx v).
+Proof.
+  split.
+  - intros H. apply idx_In in H. destruct H as [x H]. apply In_sdel in H. destruct H; split; auto. eapply In_idx; eauto.
+  - intros [H1 H2]. apply idx_In in H2. destruct H2 as [x H2]. apply (In_idx j x). apply In_sdel; auto.
+Qed.
+
+Lemma NoDup_map_filter {A B} (f : A -> B) p l : NoDup (map f l) -> NoDup (map f (filter p l)).
+Proof.
+  induction l as [|a t IH]; simpl; intros H; auto. inversion H; subst.
+  destruct (p a); simpl; auto. constructor; auto.
+  intros C. apply H2. rewrite in_map_iff in *. destruct C as [y [E1 E2]]. apply filter_In in E2. exists y; tauto.
+Qed.
+
+Lemma NoDup_sdel i v : NoDup (idx v) -> NoDup (idx (sdel i v)).
+Proof. apply NoDup_map_filter. Qed.
+
+Lemma NoDup_sclean v : NoDup (idx v) -> NoDup (idx (sclean v)).
+Proof. apply NoDup_map_filter. Qed.
+
+Lemma In_sclean j x v : In (j, x) (sclean v) <-> In (j, x) v /\ dnz x = true.
+Proof. unfold sclean. rewrite filter_In. simpl. tauto. Qed.
+
+Lemma sdel_notin i v : ~ In i (idx v) -> sdel i v = v.
+Proof.
+  induction v as [|[j x] t IH]; simpl; intros H; auto.
+  destruct (Nat.eqb_spec j i); simpl.
+  - subst. exfalso; apply H; auto.
+  - f_equal. apply IH. tauto.
+Qed.
+
+Lemma idx_sset i x v : idx (sset i x v) = idx v.
+Proof.
+  unfold idx, sset. rewrite map_map. apply map_ext_in. intros [j y] _. simpl.
+  destruct (Nat.eqb_spec j i); simpl; auto.
+Qed.
+
+Lemma In_sset i x j y v : In (j, y) (sset i x v) <-> (j = i /\ y = x /\ In i (idx v)) \/ (j <> i /\ In (j, y) v).
+Proof.
+  unfold sset. rewrite in_map_iff. split.
+  - intros [[a b] [H1 H2]]. simpl in H1. destruct (Nat.eqb_spec a i).
+    + inversion H1; subst. left. repeat split; auto. eapply In_idx; eauto.
+    + inversion H1; subst. right; auto.
+  - intros [[H1 [H2 H3]]|[H1 H2]].
+    + subst. apply idx_In in H3. destruct H3 as [z H3]. exists (i, z). simpl. rewrite Nat.eqb_refl. auto.
+    + exists (j, y). simpl. destruct (Nat.eqb_spec j i); try contradiction. auto.
+Qed.
+
+Lemma shas_spec i v : shas i v = true <-> In i (idx v).
+Proof.
+  unfold shas. rewrite existsb_exists. split.
+  - intros [[j x] [H1 H2]]. simpl in H2. apply Nat.eqb_eq in H2. subst. eapply In_idx; eauto.
+  - intros H. apply idx_In in H. destruct H as [x H]. exists (i, x). simpl. rewrite Nat.eqb_refl. auto.
+Qed.
+
+Lemma sfind_In i x v : NoDup (idx v) -> (sfind i v = Some x <-> In (i, x) v).
+Proof.
+  unfold sfind. induction v as [|[j y] t IH]; simpl; intros ND.
+  - split; [discriminate | tauto].
+  - inversion ND; subst. destruct (Nat.eqb_spec j i).
+    + subst. split.
+      * intros E; inversion E; auto.
+      * intros [E|E]; [inversion E; auto|]. exfalso. apply H1. eapply In_idx; eauto.
+    + rewrite (IH H2). split; auto. intros [E|E]; auto. inversion E; contradiction.
+Qed.
+
+Lemma sfind_None i v : sfind i v = None <-> ~ In i (idx v).
+Proof.
+  unfold sfind. induction v as [|[j y] t IH]; simpl.
+  - tauto.
+  - destruct (Nat.eqb_spec j i).
+    + subst. split; [discriminate | intros H; exfalso; apply H; auto].
+    + rewrite IH. split; intros H; [intros [C|C]; auto | auto].
+Qed.
+
+(* the dense value is determined by membership *)
+Lemma sget_In i x v : NoDup (idx v) -> In (i, x) v -> sget i v = x.
+Proof. intros ND H. unfold sget. apply (sfind_In i x v ND) in H. now rewrite H. Qed.
+
+Lemma sget_notin i v : ~ In i (idx v) -> sget i v = dzero.
+Proof. intros H. unfold sget. apply sfind_None in H. now rewrite H. Qed.
+
+Lemma sget_ext v w : NoDup (idx v) -> NoDup (idx w) -> (forall i x, In (i, x) v <-> In (i, x) w) ->
+  forall i, sget i v = sget i w.
+Proof.
+  intros N1 N2 H i. unfold sget. destruct (sfind i v) eqn:E1.
+  - apply (sfind_In _ _ _ N1) in E1. apply H in E1. apply (sfind_In _ _ _ N2) in E1. now rewrite E1.
+  - destruct (sfind i w) eqn:E2; auto. apply (sfind_In _ _ _ N2) in E2. apply H in E2.
+    apply sfind_None in E1. exfalso. apply E1. eapply In_idx; eauto.
+Qed.
+
+Lemma In_sren a b j x v : In (j, x) (sren a b v) <-> (j = b /\ In (a, x) v) \/ (j <> a /\ In (j, x) v).
+Proof.
+  unfold sren. rewrite in_map_iff. split.
+  - intros [[c y] [H1 H2]]. simpl in H1. destruct (Nat.eqb_spec c a).
+    + inversion H1; subst. left; auto.
+    + inversion H1; subst. right; auto.
+  - intros [[H1 H2]|[H1 H2]].
+    + subst. exists (a, x). simpl. rewrite Nat.eqb_refl. auto.
+    + exists (j, x). simpl. destruct (Nat.eqb_spec j a); try contradiction. auto.
+Qed.
+
+Lemma NoDup_sren a b v : NoDup (idx v) -> ~ In b (idx v) -> NoDup (idx (sren a b v)).
+Proof.
+  induction v as [|[j y] t IH]; simpl; intros ND NB; auto. inversion ND; subst.
+  assert (~ In b (idx t)) as NB' by (intros C; apply NB; auto).
+  destruct (Nat.eqb_spec j a); simpl.
+  - subst. constructor; auto.
+    intros C. apply idx_In in C. destruct C as [x C]. apply In_sren in C.
+    destruct C as [[_ C]|[C1 C2]].
+    + apply H1. eapply In_idx; eauto.
+    + apply NB'. eapply In_idx; eauto.
+  - constructor; auto.
+    intros C. apply idx_In in C. destruct C as [x C]. apply In_sren in C.
+    destruct C as [[C1 C2]|[C1 C2]].
+    + subst. apply NB. auto.
+    + apply H1. eapply In_idx; eauto.
+Qed.
+
+Lemma sren_same a v : sren a a v = v.
+Proof.
+  unfold sren. induction v as [|[j y] t IH]; simpl; auto. rewrite IH.
+  destruct (Nat.eqb_spec j a); subst; auto.
+Qed.
+
+Lemma In_sreindex np q x v :
+  In (q, x) (sreindex np v) <-> exists j, In (j, x) v /\ (0 <= nth j np (-1))%Z /\ q = Z.to_nat (nth j np (-1)%Z).
+Proof.
+  unfold sreindex. rewrite in_flat_map. split.
+  - intros [[j y] [H1 H2]]. simpl in H2. destruct (Z.leb_spec 0 (nth j np (-1)%Z)); simpl in H2; try tauto.
+    destruct H2 as [H2|[]]. inversion H2; subst. exists j; auto.
+  - intros [j [H1 [H2 H3]]]. exists (j, x). split; auto. simpl.
+    destruct (Z.leb_spec 0 (nth j np (-1)%Z)); try lia. subst. simpl; auto.
+Qed.
+
+(* ---------- folds of updates over a file ---------- *)
+Definition foldupd (g : nat * dbl -> svec -> svec) (v : svec) (F : file) : file :=
+  fold_left (fun F p => upd (fst p) (g p) F) v F.
+
+Lemma foldupd_length g v F : length (foldupd g v F) = length F.
+Proof. revert F; induction v as [|p t IH]; intros F; simpl; auto. unfold foldupd in *. simpl. rewrite IH. apply upd_length. Qed.
+
+Definition sfindp (i : nat) (v : svec) : option (nat * dbl) := find (fun p => fst p =? i) v.
+
+Lemma sfindp_notin i v : ~ In i (idx v) -> sfindp i v = None.
+Proof.
+  induction v as [|[j y] t IH]; simpl; intros H; auto.
+  destruct (Nat.eqb_spec j i); [subst; exfalso; apply H; auto|]. apply IH. tauto.
+Qed.
+
+(* with distinct indices every S-vector is touched at most once *)
+Lemma nth_foldupd g v F i : NoDup (idx v) -> (forall p, In p v -> fst p < length F) ->
+  nth i (foldupd g v F) [] = match sfindp i v with Some p => g p (nth i F []) | None => nth i F [] end.
+Proof.
+  revert F; induction v as [|[j y] t IH]; intros F ND RG; simpl; auto.
+  inversion ND; subst. unfold foldupd in *. simpl.
+  rewrite IH; auto.
+  2:{ intros p Hp. rewrite upd_length. apply RG. right; auto. }
+  destruct (Nat.eqb_spec j i).
+  - subst. rewrite sfindp_notin; auto. apply nth_upd_eq. apply (RG (i, y)). left; auto.
+  - rewrite nth_upd_neq; auto.
+Qed.
+
+Lemma sfindp_sfind i v : sfind i v = match sfindp i v with Some p => Some (snd p) | None => None end.
+Proof. reflexivity. Qed.
+
+Lemma sfindp_Some i v p : sfindp i v = Some p -> In p v /\ fst p = i.
+Proof. unfold sfindp. intros H. apply find_some in H. destruct H as [H1 H2]. apply Nat.eqb_eq in H2. auto. Qed.
+
+Lemma sfindp_None i v : sfindp i v = None -> ~ In i (idx v).
+Proof.
+  intros H C. apply idx_In in C. destruct C as [x C].
+  unfold sfindp in H. apply (find_none _ _ H) in C. simpl in C. rewrite Nat.eqb_refl in C. discriminate.
+Qed.
+
+Lemma nth_scatter k v F i : NoDup (idx v) -> (forall p, In p v -> fst p < length F) ->
+  nth i (scatter k v F) [] = match sfind i v with Some x => (k, x) :: nth i F [] | None => nth i F [] end.
+Proof.
+  intros ND RG. change (scatter k v F) with (foldupd (fun p => cons (k, snd p)) v F).
+  rewrite nth_foldupd; auto. rewrite sfindp_sfind. destruct (sfindp i v); auto.
+Qed.
+
+Lemma nth_unlink k v F i : NoDup (idx v) -> (forall p, In p v -> fst p < length F) ->
+  nth i (unlink k v F) [] = if shas i v then sdel k (nth i F []) else nth i F [].
+Proof.
+  intros ND RG. change (unlink k v F) with (foldupd (fun _ => sdel k) v F).
+  rewrite nth_foldupd; auto. destruct (sfindp i v) eqn:E.
+  - apply sfindp_Some in E. destruct E as [E1 E2]. destruct p as [j y]; simpl in E2; subst.
+    assert (shas i v = true) as -> by (apply shas_spec; eapply In_idx; eauto). auto.
+  - apply sfindp_None in E. destruct (shas i v) eqn:E2; auto. apply shas_spec in E2. contradiction.
+Qed.
+
+Lemma nth_relink a b v F i : NoDup (idx v) -> (forall p, In p v -> fst p < length F) ->
+  nth i (relink a b v F) [] = if shas i v then sren a b (nth i F []) else nth i F [].
+Proof.
+  intros ND RG. change (relink a b v F) with (foldupd (fun _ => sren a b) v F).
+  rewrite nth_foldupd; auto. destruct (sfindp i v) eqn:E.
+  - apply sfindp_Some in E. destruct E as [E1 E2]. destruct p as [j y]; simpl in E2; subst.
+    assert (shas i v = true) as -> by (apply shas_spec; eapply In_idx; eauto). auto.
+  - apply sfindp_None in E. destruct (shas i v) eqn:E2; auto. apply shas_spec in E2. contradiction.
+Qed.
+
+Lemma scatter_length k v F : length (scatter k v F) = length F.
+Proof. apply (foldupd_length (fun p => cons (k, snd p))). Qed.
+Lemma unlink_length k v F : length (unlink k v F) = length F.
+Proof. apply (foldupd_length (fun _ => sdel k)). Qed.
+Lemma relink_length a b v F : length (relink a b v F) = length F.
+Proof. apply (foldupd_length (fun _ => sren a b)). Qed.
+
+Lemma upd_upd {A} k (f g : A -> A) l : upd k f (upd k g l) = upd k (fun x => f (g x)) l.
+Proof. revert k; induction l as [|x t IH]; intros [|k]; simpl; auto. f_equal; auto. Qed.
+
+Lemma upd_ext {A} k (f g : A -> A) l : (forall x, f x = g x) -> upd k f l = upd k g l.
+Proof. intros H. revert k; induction l as [|x t IH]; intros [|k]; simpl; auto; f_equal; auto. Qed.
+
+Lemma fill_eq k v P S : fill k v (P, S) = (upd k (fun w => rev v ++ w) P, scatter k v S).
+Proof.
+  revert P S; induction v as [|p t IH]; intros P S.
+  - simpl. f_equal. clear. revert k; induction P as [|x r IH]; intros [|k]; simpl; auto. f_equal; auto.
+  - unfold fill in *. simpl. rewrite IH. f_equal. rewrite upd_upd. apply upd_ext. intros w.
+    rewrite <- app_assoc. reflexivity.
+Qed.
+
+(* ---------- the mirror invariant ---------- *)
+Record Mir (P S : file) : Prop := mkMir {
+  mir_eq : forall k i x, In (i, x) (nth k P []) <-> In (k, x) (nth i S []);
+  mir_ndP : forall k, NoDup (idx (nth k P []));
+  mir_ndS : forall i, NoDup (idx (nth i S []));
+  mir_nz : forall k i x, In (i, x) (nth k P []) -> dnz x = true
+}.
+
+Lemma Mir_sym P S : Mir P S -> Mir S P.
+Proof.
+  intros [E N1 N2 Z]. constructor; auto.
+  - intros k i x. symmetry. apply E.
+  - intros k i x H. apply E in H. eapply Z; eauto.
+Qed.
+
+Lemma In_nth_lt (F : file) k (p : nat * dbl) : In p (nth k F []) -> k < length F.
+Proof. intros H. destruct (Nat.lt_ge_cases k (length F)); auto. rewrite nth_overflow in H; auto. destruct H. Qed.
+
+Lemma mir_bound P S k i x : Mir P S -> In (i, x) (nth k P []) -> k < length P /\ i < length S.
+Proof.
+  intros M H. split.
+  - eapply In_nth_lt; eauto.
+  - apply (mir_eq _ _ M) in H. eapply In_nth_lt; eauto.
+Qed.
+
+Lemma mir_idx_bound P S k i : Mir P S -> In i (idx (nth k P [])) -> k < length P /\ i < length S.
+Proof. intros M H. apply idx_In in H. destruct H as [x H]. eapply mir_bound; eauto. Qed.
+
+Lemma mir_idx P S k i : Mir P S -> (In i (idx (nth k P [])) <-> In k (idx (nth i S []))).
+Proof.
+  intros M. split; intros H; apply idx_In in H; destruct H as [x H].
+  - apply (mir_eq _ _ M) in H. eapply In_idx; eauto.
+  - apply (mir_eq _ _ M) in H. eapply In_idx; eauto.
+Qed.
+
+Lemma nth_nil_nil k : nth k (@nil svec) [] = [].
+Proof. destruct k; reflexivity. Qed.
+
+Lemma Mir_nil : Mir [] [].
+Proof.
+  constructor; intros; rewrite ?nth_nil_nil in *; simpl in *; try tauto; try constructor.
+Qed.
+
+(* dense entries seen from either file agree *)
+Lemma mir_sget P S k i : Mir P S -> sget i (nth k P []) = sget k (nth i S []).
+Proof.
+  intros M. unfold sget.
+  destruct (sfind i (nth k P [])) eqn:E1.
+  - apply sfind_In in E1; [|apply (mir_ndP _ _ M)]. apply (mir_eq _ _ M) in E1.
+    apply sfind_In in E1; [|apply (mir_ndS _ _ M)]. now rewrite E1.
+  - apply sfind_None in E1. destruct (sfind k (nth i S [])) eqn:E2; auto.
+    apply sfind_In in E2; [|apply (mir_ndS _ _ M)]. apply (mir_eq _ _ M) in E2.
+    exfalso; apply E1. eapply In_idx; eauto.
+Qed.
+
+(* ---------- nth of appended files ---------- *)
+Lemma nth_app_repeat_nil (F : file) g i : nth i (F ++ repeat [] g) [] = nth i F [].
+Proof.
+  destruct (Nat.lt_ge_cases i (length F)).
+  - apply app_nth1; auto.
+  - rewrite app_nth2; auto. rewrite (nth_overflow F); auto.
+    destruct (Nat.lt_ge_cases (i - length F) g).
+    + apply nth_repeat.
+    + apply nth_overflow. rewrite repeat_length; auto.
+Qed.
+
+Lemma maxidx1_cons q t : maxidx1 (q :: t) = Nat.max (S (fst q)) (maxidx1 t).
+Proof. reflexivity. Qed.
+
+Lemma maxidx1_bound v p : In p v -> fst p < maxidx1 v.
+Proof.
+  induction v as [|q t IH]; intros H; [destruct H|]. rewrite maxidx1_cons. destruct H as [H|H].
+  - subst. lia.
+  - specialize (IH H). lia.
+Qed.
+
+(* ---------- add_vec ---------- *)
+Lemma add_vec_Mir P S v : Mir P S -> NoDup (idx v) ->
+  let '(P', S', g) := add_vec P S v in
+  Mir P' S' /\ P' = P ++ [sclean v] /\ length S' = length S + g.
+Proof.
+  intros M ND. unfold add_vec.
+  set (k := length P). set (v' := sclean v). set (g := maxidx1 v' - length S).
+  set (S1 := S ++ repeat [] g).
+  assert (ND' : NoDup (idx v')) by (apply NoDup_sclean; auto).
+  assert (RG : forall p, In p v' -> fst p < length S1).
+  { intros p Hp. apply maxidx1_bound in Hp. unfold S1. rewrite app_length, repeat_length. unfold g. lia. }
+  assert (NS : forall i, nth i (scatter k v' S1) [] =
+                         match sfind i v' with Some x => (k, x) :: nth i S [] | None => nth i S [] end).
+  { intros i. rewrite nth_scatter; auto. unfold S1. rewrite nth_app_repeat_nil. auto. }
+  assert (NK : forall i x, ~ In (k, x) (nth i S [])).
+  { intros i x C. apply (mir_eq _ _ M) in C. apply In_nth_lt in C. unfold k in C. lia. }
+  split; [|split; auto].
+  2:{ rewrite scatter_length. unfold S1. rewrite app_length, repeat_length. auto. }
+  constructor.
+  - intros a i x. rewrite NS.
+    destruct (Nat.lt_trichotomy a k) as [H|[H|H]].
+    + rewrite app_nth1 by (unfold k in H; auto).
+      rewrite (mir_eq _ _ M). destruct (sfind i v'); simpl; [|tauto].
+      split; auto. intros [C|C]; auto. inversion C; lia.
+    + subst a. unfold k at 1. rewrite nth_middle.
+      destruct (sfind i v') eqn:E.
+      * apply sfind_In in E; auto. simpl. split.
+        -- intros Hx. left. f_equal. eapply (sfind_In i) in Hx; auto. eapply (sfind_In i) in E; auto. congruence.
+        -- intros [C|C]; [inversion C; subst; auto | exfalso; eapply NK; eauto].
+      * split.
+        -- intros Hx. apply sfind_None in E. exfalso; apply E. eapply In_idx; eauto.
+        -- intros C. exfalso; eapply NK; eauto.
+    + rewrite nth_overflow by (rewrite app_length; simpl; unfold k in H; lia).
+      split; [intros []|]. intros C. exfalso.
+      assert (In (a, x) (nth i S [])) as C'.
+      { destruct (sfind i v'); auto. destruct C as [C|C]; auto. inversion C; lia. }
+      apply (mir_eq _ _ M) in C'. apply In_nth_lt in C'. unfold k in H. lia.
+  - intros a. destruct (Nat.lt_trichotomy a k) as [H|[H|H]].
+    + rewrite app_nth1 by (unfold k in H; auto). apply (mir_ndP _ _ M).
+    + subst a. unfold k. rewrite nth_middle. auto.
+    + rewrite nth_overflow by (rewrite app_length; simpl; unfold k in H; lia). constructor.
+  - intros i. rewrite NS. destruct (sfind i v'); [|apply (mir_ndS _ _ M)].
+    simpl. constructor; [|apply (mir_ndS _ _ M)].
+    intros C. apply idx_In in C. destruct C as [x C]. eapply NK; eauto.
+  - intros a i x. destruct (Nat.lt_trichotomy a k) as [H|[H|H]].
+    + rewrite app_nth1 by (unfold k in H; auto). apply (mir_nz _ _ M).
+    + subst a. unfold k. rewrite nth_middle. intros Hx. apply In_sclean in Hx. tauto.
+    + rewrite nth_overflow by (rewrite app_length; simpl; unfold k in H; lia). intros [].
+Qed.
+
+(* ---------- move_last ---------- *)
+Lemma nth_firstn {A} n (l : list A) i d : i < n -> nth i (firstn n l) d = nth i l d.
+Proof.
+  revert n i; induction l as [|x t IH]; intros [|n] [|i] H; simpl; auto; try lia. apply IH; lia.
+Qed.
+
+Lemma move_last_length {A} (d : A) k l : k < length l -> length (move_last d k l) = length l - 1.
+Proof.
+  intros H. unfold move_last. destruct (Nat.eqb_spec k (length l - 1)).
+  - rewrite firstn_length. lia.
+  - rewrite setn_length, firstn_length. lia.
+Qed.
+
+(* single removal: the last element moves into the hole, all others keep their number *)
+Lemma nth_move_last {A} (d : A) k l i : k < length l ->
+  nth i (move_last d k l) d =
+  if length l - 1 <=? i then d else if i =? k then nth (length l - 1) l d else nth i l d.
+Proof.
+  intros H. unfold move_last. set (n := length l - 1).
+  destruct (Nat.leb_spec n i) as [L|L].
+  - destruct (Nat.eqb_spec k n).
+    + apply nth_overflow. rewrite firstn_length. lia.
+    + apply nth_overflow. rewrite setn_length, firstn_length. lia.
+  - destruct (Nat.eqb_spec k n).
+    + subst k. destruct (Nat.eqb_spec i n); try lia. apply nth_firstn; auto.
+    + unfold setn. destruct (Nat.eqb_spec i k).
+      * subst i. rewrite nth_upd_eq; auto. rewrite firstn_length. lia.
+      * rewrite nth_upd_neq; auto. apply nth_firstn; auto.
+Qed.
+
+(* ---------- remove1 ---------- *)
+Lemma remove1_S P S k : Mir P S -> k < length P ->
+  forall i, nth i (snd (remove1 P S k)) [] = sren (length P - 1) k (sdel k (nth i S [])).
+Proof.
+  intros M H i. unfold remove1. simpl. set (last := length P - 1).
+  assert (RGk : forall p, In p (nth k P []) -> fst p < length S).
+  { intros [j y] Hp. simpl. eapply mir_bound; eauto. }
+  assert (U : forall i, nth i (unlink k (nth k P []) S) [] = sdel k (nth i S [])).
+  { intros j. rewrite nth_unlink; auto; [|apply (mir_ndP _ _ M)].
+    destruct (shas j (nth k P [])) eqn:E; auto.
+    symmetry. apply sdel_notin. intros C. apply (mir_idx _ _ _ _ (Mir_sym _ _ M)) in C.
+    apply shas_spec in C. congruence. }
+  destruct (Nat.eqb_spec k last).
+  - subst k. rewrite sren_same. apply U.
+  - rewrite nth_relink.
+    + rewrite U. destruct (shas i (nth last P [])) eqn:E; auto.
+      symmetry. assert (~ In last (idx (sdel k (nth i S [])))) as NI.
+      { intros C. apply idx_sdel in C. destruct C as [_ C].
+        apply (mir_idx _ _ _ _ (Mir_sym _ _ M)) in C. apply shas_spec in C. congruence. }
+      clear - NI. induction (sdel k (nth i S [])) as [|[j y] t IH]; simpl; auto.
+      destruct (Nat.eqb_spec j last).
+      * subst. exfalso; apply NI; simpl; auto.
+      * f_equal. apply IH. intros C; apply NI; simpl; auto.
+    + apply (mir_ndP _ _ M).
+    + intros [j y] Hp. rewrite unlink_length. simpl. eapply mir_bound; eauto.
+Qed.
+
+Lemma remove1_Mir P S k : Mir P S -> k < length P ->
+  Mir (fst (remove1 P S k)) (snd (remove1 P S k)) /\
+  fst (remove1 P S k) = move_last [] k P /\ length (snd (remove1 P S k)) = length S.
+Proof.
+  intros M H. pose proof (remove1_S P S k M H) as NS.
+  split; [|split].
+  2:{ reflexivity. }
+  2:{ unfold remove1; simpl. destruct (k =? length P - 1); rewrite ?relink_length, unlink_length; auto. }
+  set (last := length P - 1) in *.
+  assert (NP : forall a, nth a (fst (remove1 P S k)) [] =
+                         if last <=? a then [] else if a =? k then nth last P [] else nth a P []).
+  { intros a. unfold remove1; simpl. apply nth_move_last; auto. }
+  constructor.
+  - intros a i x. rewrite NS, NP. rewrite In_sren. rewrite !In_sdel.
+    destruct (Nat.leb_spec last a) as [L|L].
+    + split; [intros []|]. intros [[E1 [E2 E3]]|[E1 [E2 E3]]].
+      * subst a. unfold last in L. lia.
+      * apply (mir_eq _ _ M) in E3. apply In_nth_lt in E3. unfold last in *. lia.
+    + destruct (Nat.eqb_spec a k).
+      * subst a. rewrite (mir_eq _ _ M). split.
+        -- intros Hx. left. repeat split; auto. lia.
+        -- intros [[_ [_ Hx]]|[_ [C _]]]; auto. contradiction.
+      * rewrite (mir_eq _ _ M). split.
+        -- intros Hx. right. repeat split; auto. lia.
+        -- intros [[C _]|[_ [_ Hx]]]; auto. contradiction.
+  - intros a. rewrite NP. destruct (last <=? a); [constructor|]. destruct (a =? k); apply (mir_ndP _ _ M).
+  - intros i. rewrite NS. apply NoDup_sren.
+    + apply NoDup_sdel. apply (mir_ndS _ _ M).
+    + intros C. apply idx_sdel in C. tauto.
+  - intros a i x. rewrite NP. destruct (last <=? a); [intros []|]. destruct (a =? k); apply (mir_nz _ _ M).
+Qed.
+
+(* ---------- replace_vec ---------- *)
+Lemma idx_rev (v : svec) : idx (rev v) = rev (idx v).
+Proof. unfold idx. apply map_rev. Qed.
+
+Lemma replace_vec_Mir P S k v : Mir P S -> k < length P -> NoDup (idx v) ->
+  (forall p, In p v -> fst p < length S) ->
+  Mir (fst (replace_vec P S k v)) (snd (replace_vec P S k v)) /\
+  fst (replace_vec P S k v) = setn k (rev (sclean v)) P /\ length (snd (replace_vec P S k v)) = length S.
+Proof.
+  intros M H ND RG. unfold replace_vec. rewrite fill_eq. simpl.
+  set (v' := sclean v).
+  assert (ND' : NoDup (idx v')) by (apply NoDup_sclean; auto).
+  assert (RG' : forall p, In p v' -> fst p < length S).
+  { intros p Hp. apply RG. destruct p. apply In_sclean in Hp. tauto. }
+  assert (RGk : forall p, In p (nth k P []) -> fst p < length S).
+  { intros [j y] Hp. simpl. eapply mir_bound; eauto. }
+  assert (U : forall i, nth i (unlink k (nth k P []) S) [] = sdel k (nth i S [])).
+  { intros j. rewrite nth_unlink; auto; [|apply (mir_ndP _ _ M)].
+    destruct (shas j (nth k P [])) eqn:E; auto.
+    symmetry. apply sdel_notin. intros C. apply (mir_idx _ _ _ _ (Mir_sym _ _ M)) in C.
+    apply shas_spec in C. congruence. }
+  assert (EP : upd k (fun w => rev v' ++ w) (setn k [] P) = setn k (rev v') P).
+  { unfold setn. rewrite upd_upd. apply upd_ext. intros. apply app_nil_r. }
+  rewrite EP.
+  assert (NS : forall i, nth i (scatter k v' (unlink k (nth k P []) S)) [] =
+               match sfind i v' with Some x => (k, x) :: sdel k (nth i S []) | None => sdel k (nth i S []) end).
+  { intros i. rewrite nth_scatter; auto.
+    - rewrite U. auto.
+    - intros p Hp. rewrite unlink_length. auto. }
+  assert (NP : forall a, nth a (setn k (rev v') P) [] = if a =? k then rev v' else nth a P []).
+  { intros a. unfold setn. destruct (Nat.eqb_spec a k).
+    - subst. apply nth_upd_eq; auto.
+    - apply nth_upd_neq; auto. }
+  split; [|split; auto].
+  2:{ rewrite scatter_length, unlink_length. auto. }
+  constructor.
+  - intros a i x. rewrite NS, NP. destruct (Nat.eqb_spec a k).
+    + subst a. rewrite <- in_rev. destruct (sfind i v') eqn:E.
+      * apply sfind_In in E; auto. simpl. rewrite In_sdel. split.
+        -- intros Hx. left. f_equal. apply (sfind_In i) in Hx; auto. apply (sfind_In i) in E; auto. congruence.
+        -- intros [C|[C _]]; [inversion C; subst; auto | contradiction].
+      * rewrite In_sdel. split.
+        -- intros Hx. apply sfind_None in E. exfalso; apply E. eapply In_idx; eauto.
+        -- intros [C _]. contradiction.
+    + rewrite (mir_eq _ _ M). destruct (sfind i v'); simpl; rewrite In_sdel.
+      * split; [intros Hx; right; auto|]. intros [C|[_ C]]; auto. inversion C; congruence.
+      * tauto.
+  - intros a. rewrite NP. destruct (a =? k); [|apply (mir_ndP _ _ M)].
+    rewrite idx_rev. apply NoDup_rev. auto.
+  - intros i. rewrite NS. destruct (sfind i v').
+    + simpl. constructor; [|apply NoDup_sdel, (mir_ndS _ _ M)].
+      intros C. apply idx_sdel in C. tauto.
+    + apply NoDup_sdel, (mir_ndS _ _ M).
+  - intros a i x. rewrite NP. destruct (a =? k); [|apply (mir_nz _ _ M)].
+    rewrite <- in_rev. intros Hx. apply In_sclean in Hx. tauto.
+Qed.
+
+(* ---------- set_entry ---------- *)
+Lemma eps_ok_notzero eps x : eps_ok eps = true -> notzero eps x = true -> dnz x = true.
+Proof.
+  unfold notzero, eps_ok. destruct x as [| | |m e]; simpl; auto.
+  destruct m; simpl; auto. destruct eps as [| | |m1 e1]; simpl; try discriminate; auto.
+  intros H. unfold dcmp_fin. rewrite Z.mul_0_l.
+  destruct (Z.compare_spec (m1 * 2 ^ (e1 - Z.min e1 e)) 0) as [E|E|E]; try discriminate.
+  apply Z.leb_le in H. assert (0 <= 2 ^ (e1 - Z.min e1 e))%Z by (apply Z.pow_nonneg; lia). nia.
+Qed.
+
+Lemma nth_upd_nil k (f : svec -> svec) (F : file) j : f [] = [] ->
+  nth j (upd k f F) [] = if j =? k then f (nth j F []) else nth j F [].
+Proof.
+  intros Hf. destruct (Nat.eqb_spec j k).
+  - subst. destruct (Nat.lt_ge_cases k (length F)).
+    + apply nth_upd_eq; auto.
+    + rewrite upd_oob; auto. rewrite nth_overflow; auto.
+  - apply nth_upd_neq; auto.
+Qed.
+
+Lemma nth_upd_lt k (f : svec -> svec) (F : file) j : k < length F ->
+  nth j (upd k f F) [] = if j =? k then f (nth j F []) else nth j F [].
+Proof.
+  intros H. destruct (Nat.eqb_spec j k).
+  - subst. apply nth_upd_eq; auto.
+  - apply nth_upd_neq; auto.
+Qed.
+
+Lemma set_entry_Mir eps P S k i x : Mir P S -> eps_ok eps = true -> k < length P -> i < length S ->
+  Mir (fst (set_entry eps P S k i x)) (snd (set_entry eps P S k i x)) /\
+  length (fst (set_entry eps P S k i x)) = length P /\ length (snd (set_entry eps P S k i x)) = length S.
+Proof.
+  intros M EO HK HI. unfold set_entry.
+  assert (PR : shas i (nth k P []) && shas k (nth i S []) = shas i (nth k P [])).
+  { destruct (shas i (nth k P [])) eqn:E; simpl; auto. apply shas_spec. apply shas_spec in E.
+    apply (mir_idx _ _ _ _ M); auto. }
+  rewrite PR. clear PR.
+  destruct (notzero eps x) eqn:NZ; destruct (shas i (nth k P [])) eqn:HP; simpl;
+    rewrite ?upd_length; (split; [|auto]).
+  - (* overwrite *)
+    apply shas_spec in HP. assert (HS := HP). apply (mir_idx _ _ _ _ M) in HS.
+    constructor.
+    + intros a b y. rewrite !nth_upd_lt by auto. pose proof (mir_eq _ _ M a b y) as Q.
+      destruct (Nat.eqb_spec a k), (Nat.eqb_spec b i); subst; rewrite ?In_sset; intuition congruence.
+    + intros a. rewrite nth_upd_lt by auto. destruct (a =? k); [rewrite idx_sset|]; apply (mir_ndP _ _ M).
+    + intros b. rewrite nth_upd_lt by auto. destruct (b =? i); [rewrite idx_sset|]; apply (mir_ndS _ _ M).
+    + intros a b y. rewrite nth_upd_lt by auto. destruct (Nat.eqb_spec a k); [|apply (mir_nz _ _ M)].
+      subst. rewrite In_sset. intros [[_ [E _]]|[_ H]].
+      * subst. eapply eps_ok_notzero; eauto.
+      * eapply (mir_nz _ _ M); eauto.
+  - (* new entry *)
+    assert (NP : ~ In i (idx (nth k P []))) by (intros C; apply shas_spec in C; congruence).
+    assert (NS : ~ In k (idx (nth i S []))) by (intros C; apply NP; apply (mir_idx _ _ _ _ M); auto).
+    assert (NP' : forall y, ~ In (i, y) (nth k P [])) by (intros y C; apply NP; eapply In_idx; eauto).
+    assert (NS' : forall y, ~ In (k, y) (nth i S [])) by (intros y C; apply NS; eapply In_idx; eauto).
+    constructor.
+    + intros a b y. rewrite !nth_upd_lt by auto. pose proof (mir_eq _ _ M a b y) as Q.
+      destruct (Nat.eqb_spec a k), (Nat.eqb_spec b i); subst; simpl.
+      * specialize (NP' y). specialize (NS' y). split; intros [E|H]; try tauto; inversion E; subst; left; reflexivity.
+      * split; [intros [E|H]; [inversion E; congruence | tauto] | tauto].
+      * split; [tauto | intros [E|H]; [inversion E; congruence | tauto]].
+      * tauto.
+    + intros a. rewrite nth_upd_lt by auto. destruct (a =? k) eqn:E; [|apply (mir_ndP _ _ M)].
+      apply Nat.eqb_eq in E; subst. simpl. constructor; auto. apply (mir_ndP _ _ M).
+    + intros b. rewrite nth_upd_lt by auto. destruct (b =? i) eqn:E; [|apply (mir_ndS _ _ M)].
+      apply Nat.eqb_eq in E; subst. simpl. constructor; auto. apply (mir_ndS _ _ M).
+    + intros a b y. rewrite nth_upd_lt by auto. destruct (Nat.eqb_spec a k); [|apply (mir_nz _ _ M)].
+      subst. simpl. intros [E|H].
+      * inversion E; subst. eapply eps_ok_notzero; eauto.
+      * eapply (mir_nz _ _ M); eauto.
+  - (* delete *)
+    constructor.
+    + intros a b y. rewrite !nth_upd_lt by auto. pose proof (mir_eq _ _ M a b y) as Q.
+      destruct (Nat.eqb_spec a k), (Nat.eqb_spec b i); subst; rewrite ?In_sdel; intuition congruence.
+    + intros a. rewrite nth_upd_lt by auto. destruct (a =? k); [apply NoDup_sdel|]; apply (mir_ndP _ _ M).
+    + intros b. rewrite nth_upd_lt by auto. destruct (b =? i); [apply NoDup_sdel|]; apply (mir_ndS _ _ M).
+    + intros a b y. rewrite nth_upd_lt by auto. destruct (a =? k); [|apply (mir_nz _ _ M)].
+      rewrite In_sdel. intros [_ H]. eapply (mir_nz _ _ M); eauto.
+  - auto.
+Qed.
+
+(* ---------- newperm / keep: the renumbering of survivors ---------- *)
+Lemma newperm_length perm c : length (newperm perm c) = length perm.
+Proof. revert c; induction perm as [|p t IH]; intros c; simpl; auto. destruct (0 <=? p)%Z; simpl; rewrite IH; auto. Qed.
+
+Lemma keep_length_le {A} perm (l : list A) : length (keep perm l) <= length l.
+Proof.
+  revert l; induction perm as [|p t IH]; intros [|x r]; simpl; auto; try lia.
+  destruct (0 <=? p)%Z; simpl; specialize (IH r); lia.
+Qed.
+
+(* removed elements keep their negative mark *)
+Lemma newperm_neg perm c j : (nth j perm (-1) < 0)%Z -> nth j (newperm perm c) (-1)%Z = nth j perm (-1)%Z.
+Proof.
+  revert c j; induction perm as [|p t IH]; intros c [|j] H; simpl in *; auto.
+  - destruct (Z.leb_spec 0 p); simpl; auto; lia.
+  - destruct (Z.leb_spec 0 p); simpl; auto.
+Qed.
+
+(* a survivor is found at its new number *)
+Lemma newperm_keep {A} perm (l : list A) c j d : length perm = length l -> j < length perm ->
+  (0 <= nth j perm (-1))%Z ->
+  exists q, nth j (newperm perm c) (-1)%Z = (c + Z.of_nat q)%Z /\ q < length (keep perm l) /\
+            nth q (keep perm l) d = nth j l d.
+Proof.
+  revert l c j; induction perm as [|p t IH]; intros [|x r] c [|j] HL HJ HP; simpl in *; try lia.
+  - destruct (Z.leb_spec 0 p); try lia. exists 0. simpl. split; [lia|]. split; [lia|auto].
+  - destruct (Z.leb_spec 0 p).
+    + destruct (IH r (c + 1)%Z j) as [q [E1 [E2 E3]]]; auto; try lia.
+      exists (S q). simpl. split; [lia|]. split; [lia|auto].
+    + destruct (IH r c j) as [q [E1 [E2 E3]]]; auto; try lia.
+      exists q. auto.
+Qed.
+
+(* every element of the compacted list is a survivor *)
+Lemma keep_from {A} perm (l : list A) c q : length perm = length l -> q < length (keep perm l) ->
+  exists j, j < length perm /\ (0 <= nth j perm (-1))%Z /\ nth j (newperm perm c) (-1)%Z = (c + Z.of_nat q)%Z.
+Proof.
+  revert l c q; induction perm as [|p t IH]; intros [|x r] c q HL HQ; simpl in *; try lia.
+  destruct (Z.leb_spec 0 p).
+  - destruct q as [|q].
+    + exists 0. simpl. repeat split; try lia.
+    + simpl in HQ. destruct (IH r (c + 1)%Z q) as [j [E1 [E2 E3]]]; auto; try lia.
+      exists (S j). simpl. repeat split; try lia.
+  - destruct (IH r c q) as [j [E1 [E2 E3]]]; auto; try lia.
+    exists (S j). simpl. repeat split; try lia.
+Qed.
+
+Lemma newperm_ge perm c j : j < length perm -> (0 <= nth j perm (-1))%Z -> (c <= nth j (newperm perm c) (-1))%Z.
+Proof.
+  intros H1 H2. destruct (newperm_keep perm perm c j 0%Z eq_refl H1 H2) as [q [E _]]. lia.
+Qed.
+
+(* survivors keep their relative order *)
+Lemma newperm_mono perm c j1 j2 : j1 < j2 -> j2 < length perm ->
+  (0 <= nth j1 perm (-1))%Z -> (0 <= nth j2 perm (-1))%Z ->
+  (nth j1 (newperm perm c) (-1) < nth j2 (newperm perm c) (-1))%Z.
+Proof.
+  revert c j1 j2; induction perm as [|p t IH]; intros c [|j1] [|j2] H12 HL H1 H2; simpl in *; try lia.
+  - destruct (Z.leb_spec 0 p); try lia. simpl.
+    pose proof (newperm_ge t (c + 1)%Z j2). lia.
+  - destruct (Z.leb_spec 0 p); simpl; apply IH; auto; lia.
+Qed.
+
+Lemma newperm_inj perm c j1 j2 : j1 < length perm -> j2 < length perm ->
+  (0 <= nth j1 perm (-1))%Z -> (0 <= nth j2 perm (-1))%Z ->
+  nth j1 (newperm perm c) (-1)%Z = nth j2 (newperm perm c) (-1)%Z -> j1 = j2.
+Proof.
+  intros L1 L2 H1 H2 E. destruct (Nat.lt_trichotomy j1 j2) as [H|[H|H]]; auto.
+  - pose proof (newperm_mono perm c j1 j2 H L2 H1 H2). lia.
+  - pose proof (newperm_mono perm c j2 j1 H L1 H2 H1). lia.
+Qed.
+
+Lemma newperm_sign perm c j : (0 <= c)%Z -> ((0 <= nth j (newperm perm c) (-1))%Z <-> (0 <= nth j perm (-1))%Z).
+Proof.
+  intros HC. destruct (Nat.lt_ge_cases j (length perm)) as [L|L].
+  - destruct (Z.leb_spec 0 (nth j perm (-1)%Z)) as [H|H].
+    + pose proof (newperm_ge perm c j L H). lia.
+    + rewrite newperm_neg; auto. lia.
+  - rewrite !nth_overflow; try lia. rewrite newperm_length; auto.
+Qed.
+
+(* ---------- remove_perm ---------- *)
+Lemma NoDup_sreindex np v : NoDup (idx v) ->
+  (forall j1 j2, In j1 (idx v) -> In j2 (idx v) -> (0 <= nth j1 np (-1))%Z -> nth j1 np (-1)%Z = nth j2 np (-1)%Z -> j1 = j2) ->
+  NoDup (idx (sreindex np v)).
+Proof.
+  induction v as [|[j y] t IH]; intros ND INJ; simpl; [constructor|].
+  inversion ND as [|? ? NI NDt]; subst.
+  assert (NoDup (idx (sreindex np t))) as IHt.
+  { apply IH; auto. intros j1 j2 G1 G2. apply INJ; simpl; auto. }
+  unfold sreindex in *. simpl. destruct (Z.leb_spec 0 (nth j np (-1)%Z)); simpl; auto.
+  constructor; auto. intros C. apply idx_In in C. destruct C as [x C].
+  apply In_sreindex in C. destruct C as [j' [C1 [C2 C3]]].
+  assert (j = j').
+  { apply INJ; simpl; auto. right. eapply In_idx; eauto. lia. }
+  subst j'. apply NI. eapply In_idx; eauto.
+Qed.
+
+Lemma remove_perm_Mir P S perm : Mir P S -> length perm = length P ->
+  let '(P', S', np) := remove_perm P S perm in
+  Mir P' S' /\ P' = keep perm P /\ length S' = length S /\ np = newperm perm 0.
+Proof.
+  intros M HL. unfold remove_perm. set (np := newperm perm 0%Z).
+  split; [|split; [auto|split; [apply map_length|auto]]].
+  assert (NS : forall i, nth i (map (sreindex np) S) [] = sreindex np (nth i S [])).
+  { intros i. change (@nil (nat * dbl)) with (sreindex np []) at 1. apply map_nth. }
+  constructor.
+  - intros q i x. rewrite NS, In_sreindex. split.
+    + intros H. assert (QL := In_nth_lt _ _ _ H).
+      destruct (keep_from perm P 0%Z q HL QL) as [j [E1 [E2 E3]]].
+      destruct (newperm_keep perm P 0%Z j [] HL E1 E2) as [q' [F1 [F2 F3]]].
+      assert (q' = q) by (rewrite E3 in F1; lia). subst q'.
+      exists j. rewrite F3 in H. apply (mir_eq _ _ M) in H. split; auto. unfold np. rewrite E3. split; lia.
+    + intros [j [H1 [H2 H3]]]. apply (mir_eq _ _ M) in H1. assert (JL := In_nth_lt _ _ _ H1).
+      rewrite <- HL in JL. assert (0 <= nth j perm (-1))%Z as KP by (apply (newperm_sign perm 0%Z j); auto; lia).
+      destruct (newperm_keep perm P 0%Z j [] HL JL KP) as [q' [F1 [F2 F3]]].
+      fold np in F1. assert (q = q') by lia. subst q'. rewrite F3. auto.
+  - intros q. destruct (Nat.lt_ge_cases q (length (keep perm P))) as [QL|QL].
+    + destruct (keep_from perm P 0%Z q HL QL) as [j [E1 [E2 E3]]].
+      destruct (newperm_keep perm P 0%Z j [] HL E1 E2) as [q' [F1 [F2 F3]]].
+      assert (q' = q) by lia. subst q'. rewrite F3. apply (mir_ndP _ _ M).
+    + rewrite nth_overflow; auto. constructor.
+  - intros i. rewrite NS. apply NoDup_sreindex; [apply (mir_ndS _ _ M)|].
+    intros j1 j2 H1 H2 H3 H4.
+    assert (J1 : j1 < length perm).
+    { rewrite HL. apply (mir_idx_bound S P i j1 (Mir_sym _ _ M) H1). }
+    assert (J2 : j2 < length perm).
+    { rewrite HL. apply (mir_idx_bound S P i j2 (Mir_sym _ _ M) H2). }
+    unfold np in *. apply (newperm_inj perm 0%Z); auto.
+    * apply (newperm_sign perm 0%Z j1); auto; lia.
+    * apply (newperm_sign perm 0%Z j2); auto; try lia.
+  - intros q i x H. assert (QL := In_nth_lt _ _ _ H).
+    destruct (keep_from perm P 0%Z q HL QL) as [j [E1 [E2 E3]]].
+    destruct (newperm_keep perm P 0%Z j [] HL E1 E2) as [q' [F1 [F2 F3]]].
+    assert (q' = q) by lia. subst q'. rewrite F3 in H. eapply (mir_nz _ _ M); eauto.
+Qed.
+
+(* ---------- invariant of the LP ---------- *)
+Record LInv (l : lp) : Prop := mkLInv {
+  li_mir : Mir (rf l) (cf l);
+  li_lhs : length (lhs l) = length (rf l);
+  li_rhs : length (rhs l) = length (rf l);
+  li_obj : length (obj l) = length (cf l);
+  li_lo : length (lo l) = length (cf l);
+  li_up : length (up l) = length (cf l)
+}.
+
+Lemma nodupb_spec l : nodupb l = true -> NoDup l.
+Proof.
+  induction l as [|x t IH]; simpl; intros H; [constructor|].
+  apply andb_true_iff in H. destruct H as [H1 H2]. constructor; auto.
+  intros C. apply negb_true_iff in H1. assert (existsb (Nat.eqb x) t = true); [|congruence].
+  apply existsb_exists. exists x. split; auto. apply Nat.eqb_refl.
+Qed.
+
+Lemma vec_ok_nodup b v : vec_ok b v = true -> NoDup (idx v).
+Proof. unfold vec_ok. intros H. apply andb_true_iff in H. apply nodupb_spec. tauto. Qed.
+
+Lemma vec_ok_bound n v : vec_ok (Some n) v = true -> forall p, In p v -> fst p < n.
+Proof.
+  unfold vec_ok. intros H p Hp. apply andb_true_iff in H. destruct H as [_ H].
+  rewrite forallb_forall in H. apply H in Hp. apply Nat.ltb_lt; auto.
+Qed.
+
+Lemma keep_length_eq {A B} perm (l1 : list A) (l2 : list B) : length l1 = length l2 ->
+  length (keep perm l1) = length (keep perm l2).
+Proof.
+  revert l1 l2; induction perm as [|p t IH]; intros [|x r] [|y s] H; simpl in *; auto; try lia.
+  destruct (0 <=? p)%Z; simpl; auto.
+Qed.
+
+Lemma move_last_length_eq {A B} (d1 : A) (d2 : B) k l1 l2 : length l1 = length l2 -> k < length l1 ->
+  length (move_last d1 k l1) = length (move_last d2 k l2).
+Proof. intros H K. rewrite !move_last_length; lia. Qed.
+
+Lemma add_row_LInv inf r l : LInv l -> NoDup (idx (snd r)) -> LInv (add_row inf r l).
+Proof.
+  intros I ND. destruct r as [[a b] v]. unfold add_row. simpl in ND.
+  pose proof (add_vec_Mir (rf l) (cf l) v (li_mir _ I) ND) as H.
+  destruct (add_vec (rf l) (cf l) v) as [[P S] g]. destruct H as [M [EP ES]].
+  destruct I. constructor; simpl; auto; subst P; rewrite ?app_length, ?repeat_length; simpl; lia.
+Qed.
+
+Lemma add_col_LInv inf c l : LInv l -> NoDup (idx (snd c)) -> LInv (add_col inf c l).
+Proof.
+  intros I ND. destruct c as [[[o a] b] v]. unfold add_col. simpl in ND.
+  pose proof (add_vec_Mir (cf l) (rf l) v (Mir_sym _ _ (li_mir _ I)) ND) as H.
+  destruct (add_vec (cf l) (rf l) v) as [[P S] g]. destruct H as [M [EP ES]].
+  destruct I. constructor; simpl; auto; [apply Mir_sym; auto|..]; subst P;
+    rewrite ?app_length, ?repeat_length; simpl; lia.
+Qed.
+
+Lemma change_row_LInv i r l : LInv l -> i < nrows l -> NoDup (idx (snd r)) ->
+  (forall p, In p (snd r) -> fst p < ncols l) -> LInv (change_row i r l).
+Proof.
+  intros I HI ND RG. destruct r as [[a b] v]. unfold change_row. simpl in ND, RG.
+  pose proof (replace_vec_Mir (rf l) (cf l) i v (li_mir _ I) HI ND RG) as H.
+  destruct (replace_vec (rf l) (cf l) i v) as [P S]. simpl in H. destruct H as [M [EP ES]].
+  destruct I. constructor; simpl; auto; subst P; rewrite ?setn_length; lia.
+Qed.
+
+Lemma change_col_LInv j c l : LInv l -> j < ncols l -> NoDup (idx (snd c)) ->
+  (forall p, In p (snd c) -> fst p < nrows l) -> LInv (change_col j c l).
+Proof.
+  intros I HI ND RG. destruct c as [[[o a] b] v]. unfold change_col. simpl in ND, RG.
+  pose proof (replace_vec_Mir (cf l) (rf l) j v (Mir_sym _ _ (li_mir _ I)) HI ND RG) as H.
+  destruct (replace_vec (cf l) (rf l) j v) as [P S]. simpl in H. destruct H as [M [EP ES]].
+  destruct I. constructor; simpl; auto; [apply Mir_sym; auto|..]; subst P; rewrite ?setn_length; lia.
+Qed.
+
+Lemma change_elem_LInv eps i j x l : LInv l -> eps_ok eps = true -> i < nrows l -> j < ncols l ->
+  LInv (change_elem eps i j x l).
+Proof.
+  intros I EO HI HJ. unfold change_elem.
+  pose proof (set_entry_Mir eps (rf l) (cf l) i j x (li_mir _ I) EO HI HJ) as H.
+  destruct (set_entry eps (rf l) (cf l) i j x) as [P S]. simpl in H. destruct H as [M [EP ES]].
+  destruct I. constructor; simpl; auto; lia.
+Qed.
+
+Lemma remove_row_LInv i l : LInv l -> LInv (remove_row i l).
+Proof.
+  intros I. unfold remove_row. destruct (Nat.ltb_spec i (nrows l)) as [HI|HI]; auto.
+  pose proof (remove1_Mir (rf l) (cf l) i (li_mir _ I) HI) as H.
+  destruct (remove1 (rf l) (cf l) i) as [P S]. simpl in H. destruct H as [M [EP ES]].
+  destruct I. unfold nrows in HI. constructor; simpl; auto; try lia; subst P;
+    apply move_last_length_eq; auto; lia.
+Qed.
+
+Lemma remove_col_LInv j l : LInv l -> LInv (remove_col j l).
+Proof.
+  intros I. unfold remove_col. destruct (Nat.ltb_spec j (ncols l)) as [HI|HI]; auto.
+  pose proof (remove1_Mir (cf l) (rf l) j (Mir_sym _ _ (li_mir _ I)) HI) as H.
+  destruct (remove1 (cf l) (rf l) j) as [P S]. simpl in H. destruct H as [M [EP ES]].
+  destruct I. unfold ncols in HI. constructor; simpl; auto; [apply Mir_sym; auto|try lia..]; subst P;
+    apply move_last_length_eq; auto; lia.
+Qed.
+
+Lemma remove_rows_LInv perm l : LInv l -> length perm = nrows l -> LInv (fst (remove_rows perm l)).
+Proof.
+  intros I HL. unfold remove_rows.
+  pose proof (remove_perm_Mir (rf l) (cf l) perm (li_mir _ I) HL) as H.
+  destruct (remove_perm (rf l) (cf l) perm) as [[P S] np]. destruct H as [M [EP [ES _]]].
+  destruct I. constructor; simpl; auto; try lia; subst P; apply keep_length_eq; auto.
+Qed.
+
+Lemma remove_cols_LInv perm l : LInv l -> length perm = ncols l -> LInv (fst (remove_cols perm l)).
+Proof.
+  intros I HL. unfold remove_cols.
+  pose proof (remove_perm_Mir (cf l) (rf l) perm (Mir_sym _ _ (li_mir _ I)) HL) as H.
+  destruct (remove_perm (cf l) (rf l) perm) as [[P S] np]. destruct H as [M [EP [ES _]]].
+  destruct I. constructor; simpl; auto; [apply Mir_sym; auto|try lia..]; subst P; apply keep_length_eq; auto.
+Qed.
+
+Lemma idx_to_perm_length n idx : length (idx_to_perm n idx) = n.
+Proof.
+  unfold idx_to_perm.
+  assert (forall l : list Z, length (fold_left (fun p i => setn i (-1)%Z p) idx l) = length l) as H.
+  { induction idx as [|i t IH]; intros l; simpl; auto. rewrite IH. apply setn_length. }
+  rewrite H, map_length, seq_length. auto.
+Qed.
+
+Lemma range_to_perm_length n a b : length (range_to_perm n a b) = n.
+Proof. unfold range_to_perm. rewrite map_length, seq_length. auto. Qed.
+
+Lemma empty_LInv mx : LInv (empty_lp mx).
+Proof. constructor; simpl; auto. apply Mir_nil. Qed.
+
+Lemma fold_add_row_LInv inf rs l : LInv l -> forallb (fun r => vec_ok None (snd r)) rs = true ->
+  LInv (fold_left (fun l r => add_row inf r l) rs l).
+Proof.
+  revert l; induction rs as [|r t IH]; intros l I H; simpl in *; auto.
+  apply andb_true_iff in H. destruct H as [H1 H2]. apply IH; auto.
+  apply add_row_LInv; auto. eapply vec_ok_nodup; eauto.
+Qed.
+
+Lemma fold_add_col_LInv inf cs l : LInv l -> forallb (fun c => vec_ok None (snd c)) cs = true ->
+  LInv (fold_left (fun l c => add_col inf c l) cs l).
+Proof.
+  revert l; induction cs as [|c t IH]; intros l I H; simpl in *; auto.
+  apply andb_true_iff in H. destruct H as [H1 H2]. apply IH; auto.
+  apply add_col_LInv; auto. eapply vec_ok_nodup; eauto.
+Qed.
+
+Definition SInv (s : state) : Prop := LInv (L s) /\ eps_ok (eps s) = true.
+
+Lemma apply_LInv s o : SInv s -> valid_op (nrows (L s)) (ncols (L s)) o = true -> LInv (fst (apply s o)).
+Proof.
+  intros [I EO] V. pose proof I as I0. destruct I as [M H1 H2 H3 H4 H5].
+  destruct o; simpl in V |- *;
+    repeat match goal with
+           | r : rowspec |- _ => destruct r as [[? ?] ?]
+           | c : colspec |- _ => destruct c as [[[? ?] ?] ?]
+           | H : _ && _ = true |- _ => apply andb_true_iff in H; destruct H
+           | H : (_ <? _) = true |- _ => apply Nat.ltb_lt in H
+           | H : (_ =? _) = true |- _ => apply Nat.eqb_eq in H
+           end;
+    try (constructor; simpl; rewrite ?setn_length, ?map_length; auto; unfold nrows, ncols in *; congruence).
+  - apply add_row_LInv; auto. eapply vec_ok_nodup; eauto.
+  - apply fold_add_row_LInv; auto.
+  - apply add_col_LInv; auto. eapply vec_ok_nodup; eauto.
+  - apply fold_add_col_LInv; auto.
+  - apply change_row_LInv; auto. eapply vec_ok_nodup; eauto. apply vec_ok_bound; auto.
+  - apply change_col_LInv; auto. eapply vec_ok_nodup; eauto. apply vec_ok_bound; auto.
+  - apply change_elem_LInv; auto.
+  - apply remove_row_LInv; auto.
+  - apply remove_rows_LInv; auto.
+  - apply remove_rows_LInv; auto. apply idx_to_perm_length.
+  - apply remove_rows_LInv; auto. apply range_to_perm_length.
+  - apply remove_col_LInv; auto.
+  - apply remove_cols_LInv; auto.
+  - apply remove_cols_LInv; auto. apply idx_to_perm_length.
+  - apply remove_cols_LInv; auto. apply range_to_perm_length.
+  - apply empty_LInv.
+  - unfold change_sense. constructor; simpl; auto. destruct (Bool.eqb mx (lmax (L s))); rewrite ?map_length; auto.
+Qed.
+
+Lemma step_SInv s o : SInv s -> valid_op (nrows (L s)) (ncols (L s)) o = true -> SInv (fst (step s o)).
+Proof.
+  intros I V. pose proof (apply_LInv s o I V) as A. destruct I as [I EO].
+  destruct o; try (unfold step; destruct (apply s _); split; simpl in *; auto; fail);
+    simpl; split; simpl; auto.
+Qed.
+
+(* validity of a whole history: every call is inside the documented domain when it is made *)
+Fixpoint valid_run (s : state) (ops : list op) : bool :=
+  match ops with
+  | [] => true
+  | o :: t => valid_op (nrows (L s)) (ncols (L s)) o && valid_run (fst (step s o)) t
+  end.
+
+Lemma run_SInv ops : forall s, SInv s -> valid_run s ops = true -> SInv (run s ops).
+Proof.
+  induction ops as [|o t IH]; intros s I V; simpl in *; auto.
+  apply andb_true_iff in V. destruct V as [V1 V2]. apply IH; auto. apply step_SInv; auto.
+Qed.
+
+Lemma init_SInv mx eps inf : eps_ok eps = true -> SInv (init mx eps inf).
+Proof. intros H. split; simpl; auto. apply empty_LInv. Qed.
+
+(* ---------- dense view of a file ---------- *)
+Definition dg (F : file) (k i : nat) : dbl := sget i (nth k F []).
+(* dense view of a sparse vector handed to the interface (exact zeros are not stored) *)
+Definition dvec (v : svec) (i : nat) : dbl := sget i (sclean v).
+
+Lemma sget_nil i : sget i [] = dzero.
+Proof. reflexivity. Qed.
+
+Lemma sget_cons b i x w : sget b ((i, x) :: w) = if b =? i then x else sget b w.
+Proof. unfold sget, sfind. simpl. rewrite (Nat.eqb_sym i b). destruct (b =? i); auto. Qed.
+
+Lemma sget_sdel b i w : sget b (sdel i w) = if b =? i then dzero else sget b w.
+Proof.
+  induction w as [|[j y] t IH]; simpl.
+  - destruct (b =? i); auto.
+  - destruct (Nat.eqb_spec j i); simpl.
+    + subst j. rewrite IH, sget_cons. destruct (b =? i); auto.
+    + rewrite !sget_cons, IH. destruct (Nat.eqb_spec b i); auto.
+      subst. destruct (Nat.eqb_spec i j); auto. congruence.
+Qed.
+
+Lemma sget_sset b i x w : sget b (sset i x w) = if (b =? i) && shas i w then x else sget b w.
+Proof.
+  induction w as [|[j y] t IH]; simpl.
+  - rewrite andb_false_r. auto.
+  - destruct (Nat.eqb_spec j i); simpl.
+    + subst j. rewrite !sget_cons. destruct (Nat.eqb_spec b i); simpl; auto.
+    + rewrite !sget_cons, IH. destruct (Nat.eqb_spec b j); auto.
+      subst. destruct (Nat.eqb_spec j i); simpl; auto. congruence.
+Qed.
+
+Lemma sget_rev i w : NoDup (idx w) -> sget i (rev w) = sget i w.
+Proof.
+  intros ND. apply sget_ext; auto.
+  - rewrite idx_rev. apply NoDup_rev; auto.
+  - intros j x. symmetry. apply in_rev.
+Qed.
+
+Lemma dg_oob F k i : length F <= k -> dg F k i = dzero.
+Proof. intros H. unfold dg. rewrite nth_overflow; auto. Qed.
+
+Lemma dg_app_last P v k i : dg (P ++ [v]) k i = if k =? length P then sget i v else dg P k i.
+Proof.
+  unfold dg. destruct (Nat.lt_trichotomy k (length P)) as [H|[H|H]].
+  - rewrite app_nth1; auto. destruct (Nat.eqb_spec k (length P)); auto; lia.
+  - subst. rewrite nth_middle, Nat.eqb_refl. auto.
+  - rewrite !nth_overflow; try lia. destruct (Nat.eqb_spec k (length P)); auto; lia. rewrite app_length; simpl; lia.
+Qed.
+
+Lemma dg_setn P k v a i : k < length P -> dg (setn k v P) a i = if a =? k then sget i v else dg P a i.
+Proof.
+  intros H. unfold dg, setn. destruct (Nat.eqb_spec a k).
+  - subst. rewrite nth_upd_eq; auto.
+  - rewrite nth_upd_neq; auto.
+Qed.
+
+Lemma dg_move_last P k a i : k < length P ->
+  dg (move_last [] k P) a i = if length P - 1 <=? a then dzero else if a =? k then dg P (length P - 1) i else dg P a i.
+Proof.
+  intros H. unfold dg. rewrite nth_move_last; auto. unfold file, svec in *.
+  destruct (length P - 1 <=? a); auto. destruct (a =? k); auto.
+Qed.
+
+(* the old numbers of the survivors, in order *)
+Definition kept (perm : list Z) : list nat := keep perm (seq 0 (length perm)).
+
+Lemma keep_map_seq {A} perm (l : list A) d s : length perm = length l ->
+  keep perm l = map (fun j => nth (j - s) l d) (keep perm (seq s (length perm))).
+Proof.
+  revert l s; induction perm as [|p t IH]; intros [|x r] s H; simpl in *; auto; try lia.
+  destruct (0 <=? p)%Z; simpl.
+  - rewrite Nat.sub_diag. f_equal. rewrite (IH r (S s)) by lia.
+    apply map_ext_in. intros j Hj.
+    assert (S s <= j).
+    { clear - Hj. revert Hj. generalize (S s) as a. generalize (length t) as n. clear.
+      intros n a. revert a t. induction n as [|n IHn]; intros a t Hj.
+      - destruct t; simpl in Hj; tauto.
+      - destruct t as [|q t]; simpl in Hj; [tauto|]. destruct (0 <=? q)%Z.
+        + destruct Hj as [Hj|Hj]; [lia|]. apply IHn in Hj. lia.
+        + apply IHn in Hj. lia. }
+    replace (j - s) with (S (j - S s)) by lia. reflexivity.
+  - rewrite (IH r (S s)) by lia. apply map_ext_in. intros j Hj.
+    assert (S s <= j).
+    { clear - Hj. revert Hj. generalize (S s) as a. generalize (length t) as n. clear.
+      intros n a. revert a t. induction n as [|n IHn]; intros a t Hj.
+      - destruct t; simpl in Hj; tauto.
+      - destruct t as [|q t]; simpl in Hj; [tauto|]. destruct (0 <=? q)%Z.
+        + destruct Hj as [Hj|Hj]; [lia|]. apply IHn in Hj. lia.
+        + apply IHn in Hj. lia. }
+    replace (j - s) with (S (j - S s)) by lia. reflexivity.
+Qed.
+
+Lemma keep_kept {A} perm (l : list A) d : length perm = length l ->
+  keep perm l = map (fun j => nth j l d) (kept perm).
+Proof.
+  intros H. rewrite (keep_map_seq perm l d 0 H). unfold kept. apply map_ext. intros j. f_equal. lia.
+Qed.
+
+Lemma nth_map_nth_error {A B} (f : A -> B) l q d :
+  nth q (map f l) d = match nth_error l q with Some j => f j | None => d end.
+Proof.
+  revert q; induction l as [|x t IH]; intros [|q]; simpl; auto.
+Qed.
+
+Lemma dg_keep P perm q i : length perm = length P ->
+  dg (keep perm P) q i = match nth_error (kept perm) q with Some j => dg P j i | None => dzero end.
+Proof.
+  intros H. unfold dg. rewrite (keep_kept perm P [] H).
+  etransitivity; [apply f_equal; apply nth_map_nth_error|].
+  destruct (nth_error (kept perm) q); reflexivity.
+Qed.
+
+(* ---------- the abstract (dense) LP and the specification of every call on it ---------- *)
+Record alp := mkA {
+  a_m : nat; a_n : nat;
+  a_lhs : list dbl; a_rhs : list dbl;
+  a_obj : list dbl;             (* objective as the user states it *)
+  a_lo : list dbl; a_up : list dbl;
+  a_max : bool;
+  a_A : nat -> nat -> dbl      (* dense matrix; zero outside m x n *)
+}.
+
+Definition abs (l : lp) : alp :=
+  mkA (nrows l) (ncols l) (lhs l) (rhs l) (uobj l) (lo l) (up l) (lmax l) (dg (rf l)).
+
+Definition aeq (x y : alp) : Prop :=
+  a_m x = a_m y /\ a_n x = a_n y /\ a_lhs x = a_lhs y /\ a_rhs x = a_rhs y /\ a_obj x = a_obj y /\
+  a_lo x = a_lo y /\ a_up x = a_up y /\ a_max x = a_max y /\ forall i j, a_A x i j = a_A y i j.
+
+Lemma aeq_refl x : aeq x x.
+Proof. unfold aeq; repeat split; auto. Qed.
+
+Definition s_add_row (inf : dbl) (r : rowspec) (x : alp) : alp :=
+  let '(a, b, v) := r in
+  let g := maxidx1 (sclean v) - a_n x in
+  mkA (S (a_m x)) (a_n x + g) (a_lhs x ++ [a]) (a_rhs x ++ [b])
+      (a_obj x ++ repeat dzero g) (a_lo x ++ repeat dzero g) (a_up x ++ repeat inf g) (a_max x)
+      (fun i j => if i =? a_m x then dvec v j else a_A x i j).
+
+Definition s_add_col (inf : dbl) (c : colspec) (x : alp) : alp :=
+  let '(o, a, b, v) := c in
+  let g := maxidx1 (sclean v) - a_m x in
+  mkA (a_m x + g) (S (a_n x)) (a_lhs x ++ repeat dzero g) (a_rhs x ++ repeat inf g)
+      (a_obj x ++ [o]) (a_lo x ++ [a]) (a_up x ++ [b]) (a_max x)
+      (fun i j => if j =? a_n x then dvec v i else a_A x i j).
+
+Definition s_change_row (i : nat) (r : rowspec) (x : alp) : alp :=
+  let '(a, b, v) := r in
+  mkA (a_m x) (a_n x) (setn i a (a_lhs x)) (setn i b (a_rhs x)) (a_obj x) (a_lo x) (a_up x) (a_max x)
+      (fun k j => if k =? i then dvec v j else a_A x k j).
+
+Definition s_change_col (j : nat) (c : colspec) (x : alp) : alp :=
+  let '(o, a, b, v) := c in
+  mkA (a_m x) (a_n x) (a_lhs x) (a_rhs x) (setn j o (a_obj x)) (setn j a (a_lo x)) (setn j b (a_up x)) (a_max x)
+      (fun i k => if k =? j then dvec v i else a_A x i k).
+
+Definition s_change_elem (eps : dbl) (i j : nat) (v : dbl) (x : alp) : alp :=
+  mkA (a_m x) (a_n x) (a_lhs x) (a_rhs x) (a_obj x) (a_lo x) (a_up x) (a_max x)
+      (fun r c => if (r =? i) && (c =? j) then (if notzero eps v then v else dzero) else a_A x r c).
+
+Definition s_remove_row (i : nat) (x : alp) : alp :=
+  if i <? a_m x then
+    mkA (a_m x - 1) (a_n x) (move_last dzero i (a_lhs x)) (move_last dzero i (a_rhs x))
+        (a_obj x) (a_lo x) (a_up x) (a_max x)
+        (fun r c => if a_m x - 1 <=? r then dzero else if r =? i then a_A x (a_m x - 1) c else a_A x r c)
+  else x.
+
+Definition s_remove_col (j : nat) (x : alp) : alp :=
+  if j <? a_n x then
+    mkA (a_m x) (a_n x - 1) (a_lhs x) (a_rhs x)
+        (move_last dzero j (a_obj x)) (move_last dzero j (a_lo x)) (move_last dzero j (a_up x)) (a_max x)
+        (fun r c => if a_n x - 1 <=? c then dzero else if c =? j then a_A x r (a_n x - 1) else a_A x r c)
+  else x.
+
+Definition s_remove_rows (perm : list Z) (x : alp) : alp :=
+  mkA (length (kept perm)) (a_n x) (keep perm (a_lhs x)) (keep perm (a_rhs x)) (a_obj x) (a_lo x) (a_up x) (a_max x)
+      (fun q c => match nth_error (kept perm) q with Some i => a_A x i c | None => dzero end).
+
+Definition s_remove_cols (perm : list Z) (x : alp) : alp :=
+  mkA (a_m x) (length (kept perm)) (a_lhs x) (a_rhs x)
+      (keep perm (a_obj x)) (keep perm (a_lo x)) (keep perm (a_up x)) (a_max x)
+      (fun r q => match nth_error (kept perm) q with Some j => a_A x r j | None => dzero end).
+
+Definition a_with_lhs v x := mkA (a_m x) (a_n x) v (a_rhs x) (a_obj x) (a_lo x) (a_up x) (a_max x) (a_A x).
+Definition a_with_rhs v x := mkA (a_m x) (a_n x) (a_lhs x) v (a_obj x) (a_lo x) (a_up x) (a_max x) (a_A x).
+Definition a_with_obj v x := mkA (a_m x) (a_n x) (a_lhs x) (a_rhs x) v (a_lo x) (a_up x) (a_max x) (a_A x).
+Definition a_with_lo v x := mkA (a_m x) (a_n x) (a_lhs x) (a_rhs x) (a_obj x) v (a_up x) (a_max x) (a_A x).
+Definition a_with_up v x := mkA (a_m x) (a_n x) (a_lhs x) (a_rhs x) (a_obj x) (a_lo x) v (a_max x) (a_A x).
+Definition a_with_max b x := mkA (a_m x) (a_n x) (a_lhs x) (a_rhs x) (a_obj x) (a_lo x) (a_up x) b (a_A x).
+Definition a_empty (mx : bool) := mkA 0 0 [] [] [] [] [] mx (fun _ _ => dzero).
+
+(* the specification: what each call does to the dense LP *)
+Definition spec_apply (inf eps : dbl) (pm : bool) (x : alp) (o : op) : alp :=
+  match o with
+  | AddRow r => s_add_row inf r x
+  | AddRows rs => fold_left (fun x r => s_add_row inf r x) rs x
+  | AddCol c => s_add_col inf c x
+  | AddCols cs => fold_left (fun x c => s_add_col inf c x) cs x
+  | ChgRow i r => s_change_row i r x
+  | ChgCol j c => s_change_col j c x
+  | ChgLhs i v => a_with_lhs (setn i v (a_lhs x)) x
+  | ChgLhsV vs => a_with_lhs vs x
+  | ChgRhs i v => a_with_rhs (setn i v (a_rhs x)) x
+  | ChgRhsV vs => a_with_rhs vs x
+  | ChgRange i a b => a_with_rhs (setn i b (a_rhs x)) (a_with_lhs (setn i a (a_lhs x)) x)
+  | ChgRangeV ls rs => a_with_rhs rs (a_with_lhs ls x)
+  | ChgLo j v => a_with_lo (setn j v (a_lo x)) x
+  | ChgLoV vs => a_with_lo vs x
+  | ChgUp j v => a_with_up (setn j v (a_up x)) x
+  | ChgUpV vs => a_with_up vs x
+  | ChgBnd j a b => a_with_up (setn j b (a_up x)) (a_with_lo (setn j a (a_lo x)) x)
+  | ChgBndV ls us => a_with_up us (a_with_lo ls x)
+  | ChgObj j v => a_with_obj (setn j v (a_obj x)) x
+  | ChgObjV vs => a_with_obj vs x
+  | ChgElem i j v => s_change_elem eps i j v x
+  | RemRow i => s_remove_row i x
+  | RemRowsPerm perm => s_remove_rows perm x
+  | RemRowsIdx idx => s_remove_rows (idx_to_perm (a_m x) idx) x
+  | RemRowRange a b => s_remove_rows (range_to_perm (a_m x) a b) x
+  | RemCol j => s_remove_col j x
+  | RemColsPerm perm => s_remove_cols perm x
+  | RemColsIdx idx => s_remove_cols (idx_to_perm (a_n x) idx) x
+  | RemColRange a b => s_remove_cols (range_to_perm (a_n x) a b) x
+  | ClearLP => a_empty pm
+  | SetSense mx => a_with_max mx x
+  | Optimize _ _ | GetBasis | SetBasis | ClearBasis _ => x
+  end.
+
+(* ---------- small facts ---------- *)
+Lemma dneg_invol v : dneg (dneg v) = v.
+Proof. destruct v; simpl; auto. rewrite Z.opp_involutive. auto. Qed.
+
+Lemma sgn_invol mx v : sgn mx (sgn mx v) = v.
+Proof. destruct mx; simpl; auto. apply dneg_invol. Qed.
+
+Lemma sgn_zero mx : sgn mx dzero = dzero.
+Proof. destruct mx; reflexivity. Qed.
+
+Lemma map_repeat' {A B} (f : A -> B) x n : map f (repeat x n) = repeat (f x) n.
+Proof. induction n; simpl; auto. f_equal; auto. Qed.
+
+Lemma map_upd {A B} (f : A -> B) k g g' l : (forall x, f (g x) = g' (f x)) -> map f (upd k g l) = upd k g' (map f l).
+Proof. intros H. revert k; induction l as [|x t IH]; intros [|k]; simpl; auto; f_equal; auto. Qed.
+
+Lemma map_move_last {A B} (f : A -> B) d k l : map f (move_last d k l) = move_last (f d) k (map f l).
+Proof.
+  unfold move_last. rewrite map_length. destruct (k =? length l - 1).
+  - symmetry. apply firstn_map.
+  - unfold setn. rewrite (map_upd f k (fun _ => nth (length l - 1) l d) (fun _ => nth (length l - 1) (map f l) (f d))).
+    + f_equal. symmetry. apply firstn_map.
+    + intros _. symmetry. apply map_nth.
+Qed.
+
+Lemma map_keep {A B} (f : A -> B) perm l : map f (keep perm l) = keep perm (map f l).
+Proof.
+  revert l; induction perm as [|p t IH]; intros [|x r]; simpl; auto.
+  destruct (0 <=? p)%Z; simpl; rewrite IH; auto.
+Qed.
+
+Lemma uobj_app l1 mx x : map (sgn mx) (l1 ++ [sgn mx x]) = map (sgn mx) l1 ++ [x].
+Proof. rewrite map_app. simpl. rewrite sgn_invol. auto. Qed.
+
+Lemma kept_length {A} perm (l : list A) : length perm = length l -> length (keep perm l) = length (kept perm).
+Proof. intros H. unfold kept. apply keep_length_eq. rewrite seq_length. auto. Qed.
+
+Lemma dg_sym P S i k : Mir P S -> dg S i k = dg P k i.
+Proof. intros M. unfold dg. symmetry. apply mir_sget; auto. Qed.
+
+Ltac aeq_split := unfold aeq; simpl; repeat match goal with |- _ /\ _ => split end.
+Ltac len_tac := unfold nrows, ncols in *; subst; simpl;
+  rewrite ?setn_length, ?app_length, ?scatter_length, ?repeat_length, ?map_length; simpl; auto; try lia.
+
+Lemma add_row_ref inf r l : LInv l -> NoDup (idx (snd r)) -> aeq (abs (add_row inf r l)) (s_add_row inf r (abs l)).
+Proof.
+  intros I ND. destruct r as [[a b] v]. simpl in ND. unfold add_row, s_add_row.
+  pose proof (add_vec_Mir (rf l) (cf l) v (li_mir _ I) ND) as H.
+  unfold add_vec in *. simpl in *. destruct H as [M [_ ES]].
+  aeq_split; auto; unfold nrows, ncols, uobj; simpl.
+  - rewrite app_length. simpl. lia.
+  - rewrite map_app, map_repeat', sgn_zero. auto.
+  - intros i j. rewrite dg_app_last. reflexivity.
+Qed.
+
+Lemma add_col_ref inf c l : LInv l -> NoDup (idx (snd c)) -> aeq (abs (add_col inf c l)) (s_add_col inf c (abs l)).
+Proof.
+  intros I ND. destruct c as [[[o a] b] v]. simpl in ND. unfold add_col, s_add_col.
+  pose proof (add_vec_Mir (cf l) (rf l) v (Mir_sym _ _ (li_mir _ I)) ND) as H.
+  unfold add_vec in *. simpl in *. destruct H as [M [_ ES]].
+  aeq_split; auto; unfold nrows, ncols, uobj; simpl.
+  - rewrite app_length. simpl. lia.
+  - apply uobj_app.
+  - intros i j. rewrite (dg_sym _ _ i j M). rewrite dg_app_last.
+    destruct (j =? length (cf l)); auto. apply (dg_sym (rf l) (cf l)). apply (li_mir _ I).
+Qed.
+
+Lemma change_row_ref i r l : LInv l -> i < nrows l -> NoDup (idx (snd r)) ->
+  (forall p, In p (snd r) -> fst p < ncols l) -> aeq (abs (change_row i r l)) (s_change_row i r (abs l)).
+Proof.
+  intros I HI ND RG. destruct r as [[a b] v]. simpl in ND, RG. unfold change_row, s_change_row.
+  pose proof (replace_vec_Mir (rf l) (cf l) i v (li_mir _ I) HI ND RG) as H.
+  destruct (replace_vec (rf l) (cf l) i v) as [P S]. simpl in H. destruct H as [M [EP ES]].
+  aeq_split; auto; try solve [len_tac]; unfold nrows, ncols, uobj; simpl; subst P.
+  - intros k j. rewrite dg_setn; auto. destruct (k =? i); auto.
+    unfold dvec. apply sget_rev. apply NoDup_sclean; auto.
+Qed.
+
+Lemma change_col_ref j c l : LInv l -> j < ncols l -> NoDup (idx (snd c)) ->
+  (forall p, In p (snd c) -> fst p < nrows l) -> aeq (abs (change_col j c l)) (s_change_col j c (abs l)).
+Proof.
+  intros I HI ND RG. destruct c as [[[o a] b] v]. simpl in ND, RG. unfold change_col, s_change_col.
+  pose proof (replace_vec_Mir (cf l) (rf l) j v (Mir_sym _ _ (li_mir _ I)) HI ND RG) as H.
+  destruct (replace_vec (cf l) (rf l) j v) as [P S]. simpl in H. destruct H as [M [EP ES]].
+  aeq_split; auto; try solve [len_tac]; unfold nrows, ncols, uobj; simpl.
+  - unfold setn. apply map_upd. intros _. apply sgn_invol.
+  - intros i k. rewrite (dg_sym _ _ i k M). subst P. rewrite dg_setn; auto. destruct (k =? j).
+    + unfold dvec. apply sget_rev. apply NoDup_sclean; auto.
+    + apply (dg_sym (rf l) (cf l)). apply (li_mir _ I).
+Qed.
+
+Lemma dg_upd F k f a b : k < length F -> dg (upd k f F) a b = if a =? k then sget b (f (nth a F [])) else dg F a b.
+Proof.
+  intros H. unfold dg. destruct (Nat.eqb_spec a k).
+  - subst. rewrite nth_upd_eq; auto.
+  - rewrite nth_upd_neq; auto.
+Qed.
+
+Lemma change_elem_ref eps i j x l : LInv l -> eps_ok eps = true -> i < nrows l -> j < ncols l ->
+  aeq (abs (change_elem eps i j x l)) (s_change_elem eps i j x (abs l)).
+Proof.
+  intros I EO HI HJ. unfold change_elem, s_change_elem.
+  pose proof (set_entry_Mir eps (rf l) (cf l) i j x (li_mir _ I) EO HI HJ) as H.
+  destruct (set_entry eps (rf l) (cf l) i j x) as [P S] eqn:E. simpl in H. destruct H as [M [EP ES]].
+  aeq_split; auto. intros r c.
+  unfold set_entry in E.
+  assert (PR : shas j (nth i (rf l) []) && shas i (nth j (cf l) []) = shas j (nth i (rf l) [])).
+  { destruct (shas j (nth i (rf l) [])) eqn:E1; simpl; auto. apply shas_spec. apply shas_spec in E1.
+    apply (mir_idx _ _ _ _ (li_mir _ I)); auto. }
+  rewrite PR in E. clear PR.
+  destruct (notzero eps x); destruct (shas j (nth i (rf l) [])) eqn:HP; inversion E; subst; clear E.
+  - rewrite dg_upd; auto. destruct (r =? i) eqn:E1; simpl; auto. apply Nat.eqb_eq in E1. subst r.
+    rewrite sget_sset, HP, andb_true_r. reflexivity.
+  - rewrite dg_upd; auto. destruct (r =? i) eqn:E1; simpl; auto. apply Nat.eqb_eq in E1. subst r.
+    rewrite sget_cons. reflexivity.
+  - rewrite dg_upd; auto. destruct (r =? i) eqn:E1; simpl; auto. apply Nat.eqb_eq in E1. subst r.
+    rewrite sget_sdel. reflexivity.
+  - destruct (r =? i) eqn:E1; simpl; auto. destruct (c =? j) eqn:E2; auto.
+    apply Nat.eqb_eq in E1, E2. subst. unfold dg. apply sget_notin.
+    intros C. apply shas_spec in C. congruence.
+Qed.
+
+Lemma remove_row_ref i l : LInv l -> aeq (abs (remove_row i l)) (s_remove_row i (abs l)).
+Proof.
+  intros I. unfold remove_row, s_remove_row. change (a_m (abs l)) with (nrows l). destruct (Nat.ltb_spec i (nrows l)) as [HI|HI]; [|apply aeq_refl].
+  pose proof (remove1_Mir (rf l) (cf l) i (li_mir _ I) HI) as H.
+  destruct (remove1 (rf l) (cf l) i) as [P S]. simpl in H. destruct H as [M [EP ES]].
+  aeq_split; auto; unfold nrows, ncols, uobj in *; simpl; subst P.
+  - apply move_last_length; auto.
+  - intros r c. apply dg_move_last; auto.
+Qed.
+
+Lemma remove_col_ref j l : LInv l -> aeq (abs (remove_col j l)) (s_remove_col j (abs l)).
+Proof.
+  intros I. unfold remove_col, s_remove_col. change (a_n (abs l)) with (ncols l). destruct (Nat.ltb_spec j (ncols l)) as [HI|HI]; [|apply aeq_refl].
+  pose proof (remove1_Mir (cf l) (rf l) j (Mir_sym _ _ (li_mir _ I)) HI) as H.
+  destruct (remove1 (cf l) (rf l) j) as [P S]. simpl in H. destruct H as [M [EP ES]].
+  aeq_split; auto; unfold nrows, ncols, uobj in *; simpl.
+  - subst P. apply move_last_length; auto.
+  - rewrite map_move_last, sgn_zero. auto.
+  - intros r c. rewrite (dg_sym _ _ r c M). subst P. rewrite dg_move_last; auto.
+    rewrite !(dg_sym (rf l) (cf l)) by apply (li_mir _ I). reflexivity.
+Qed.
+
+Lemma remove_rows_ref perm l : LInv l -> length perm = nrows l ->
+  aeq (abs (fst (remove_rows perm l))) (s_remove_rows perm (abs l)).
+Proof.
+  intros I HL. unfold remove_rows, s_remove_rows.
+  pose proof (remove_perm_Mir (rf l) (cf l) perm (li_mir _ I) HL) as H.
+  destruct (remove_perm (rf l) (cf l) perm) as [[P S] np]. destruct H as [M [EP [ES _]]].
+  aeq_split; auto; unfold nrows, ncols, uobj in *; simpl; subst P.
+  - apply kept_length; auto.
+  - intros q c. apply dg_keep; auto.
+Qed.
+
+Lemma remove_cols_ref perm l : LInv l -> length perm = ncols l ->
+  aeq (abs (fst (remove_cols perm l))) (s_remove_cols perm (abs l)).
+Proof.
+  intros I HL. unfold remove_cols, s_remove_cols.
+  pose proof (remove_perm_Mir (cf l) (rf l) perm (Mir_sym _ _ (li_mir _ I)) HL) as H.
+  destruct (remove_perm (cf l) (rf l) perm) as [[P S] np]. destruct H as [M [EP [ES _]]].
+  aeq_split; auto; unfold nrows, ncols, uobj in *; simpl.
+  - subst P. apply kept_length; auto.
+  - apply map_keep.
+  - intros r q. rewrite (dg_sym _ _ r q M). subst P. rewrite dg_keep; auto.
+    destruct (nth_error (kept perm) q); auto. apply (dg_sym (rf l) (cf l)). apply (li_mir _ I).
+Qed.
+
+Lemma aeq_trans x y z : aeq x y -> aeq y z -> aeq x z.
+Proof.
+  unfold aeq. intros (A1 & A2 & A3 & A4 & A5 & A6 & A7 & A8 & A9) (B1 & B2 & B3 & B4 & B5 & B6 & B7 & B8 & B9).
+  repeat split; try congruence.
+Qed.
+
+Lemma aeq_sym x y : aeq x y -> aeq y x.
+Proof.
+  unfold aeq. intros (A1 & A2 & A3 & A4 & A5 & A6 & A7 & A8 & A9). repeat split; auto.
+Qed.
+
+Ltac cong_tac :=
+  match goal with
+  | H : aeq ?x ?y |- _ =>
+    let A1 := fresh in let A2 := fresh in let A3 := fresh in let A4 := fresh in let A5 := fresh in
+    let A6 := fresh in let A7 := fresh in let A8 := fresh in let A9 := fresh in
+    destruct H as (A1 & A2 & A3 & A4 & A5 & A6 & A7 & A8 & A9);
+    unfold aeq; simpl; rewrite <- ?A1, <- ?A2, <- ?A3, <- ?A4, <- ?A5, <- ?A6, <- ?A7, <- ?A8;
+    repeat split; auto; intros;
+    try (match goal with |- context [nth_error ?l ?q] => destruct (nth_error l q) end);
+    rewrite ?A9; auto
+  end.
+
+Lemma s_add_row_cong inf r x y : aeq x y -> aeq (s_add_row inf r x) (s_add_row inf r y).
+Proof. intros H. destruct r as [[a b] v]. unfold s_add_row. cong_tac. Qed.
+
+Lemma s_add_col_cong inf c x y : aeq x y -> aeq (s_add_col inf c x) (s_add_col inf c y).
+Proof. intros H. destruct c as [[[o a] b] v]. unfold s_add_col. cong_tac. Qed.
+
+Lemma fold_s_add_row_cong inf rs : forall x y, aeq x y ->
+  aeq (fold_left (fun x r => s_add_row inf r x) rs x) (fold_left (fun x r => s_add_row inf r x) rs y).
+Proof. induction rs as [|r t IH]; intros x y H; simpl; auto. apply IH. apply s_add_row_cong; auto. Qed.
+
+Lemma fold_s_add_col_cong inf cs : forall x y, aeq x y ->
+  aeq (fold_left (fun x c => s_add_col inf c x) cs x) (fold_left (fun x c => s_add_col inf c x) cs y).
+Proof. induction cs as [|c t IH]; intros x y H; simpl; auto. apply IH. apply s_add_col_cong; auto. Qed.
+
+Lemma s_remove_row_cong i x y : aeq x y -> aeq (s_remove_row i x) (s_remove_row i y).
+Proof.
+  intros H. unfold s_remove_row. assert (a_m x = a_m y) as E by (destruct H; auto). rewrite <- E.
+  destruct (i <? a_m x); auto. cong_tac.
+Qed.
+
+Lemma s_remove_col_cong j x y : aeq x y -> aeq (s_remove_col j x) (s_remove_col j y).
+Proof.
+  intros H. unfold s_remove_col. assert (a_n x = a_n y) as E by (destruct H as (_ & ? & _); auto). rewrite <- E.
+  destruct (j <? a_n x); auto. cong_tac.
+Qed.
+
+Lemma s_remove_rows_cong p x y : aeq x y -> aeq (s_remove_rows p x) (s_remove_rows p y).
+Proof. intros H. unfold s_remove_rows. cong_tac. Qed.
+
+Lemma s_remove_cols_cong p x y : aeq x y -> aeq (s_remove_cols p x) (s_remove_cols p y).
+Proof. intros H. unfold s_remove_cols. cong_tac. Qed.
+
+Lemma spec_apply_cong inf eps pm x y o : aeq x y -> aeq (spec_apply inf eps pm x o) (spec_apply inf eps pm y o).
+Proof.
+  intros H.
+  assert (a_m x = a_m y) as Em by (destruct H; auto).
+  assert (a_n x = a_n y) as En by (destruct H as (_ & ? & _); auto).
+  destruct o; simpl; auto; rewrite <- ?Em, <- ?En;
+    first [ apply s_add_row_cong; solve [auto] | apply fold_s_add_row_cong; solve [auto]
+          | apply s_add_col_cong; solve [auto] | apply fold_s_add_col_cong; solve [auto]
+          | apply s_remove_row_cong; solve [auto] | apply s_remove_col_cong; solve [auto]
+          | apply s_remove_rows_cong; solve [auto] | apply s_remove_cols_cong; solve [auto]
+          | apply aeq_refl
+          | repeat match goal with
+                   | r : rowspec |- _ => destruct r as [[? ?] ?]
+                   | c : colspec |- _ => destruct c as [[[? ?] ?] ?]
+                   end;
+            unfold s_change_row, s_change_col, s_change_elem,
+              a_with_lhs, a_with_rhs, a_with_obj, a_with_lo, a_with_up, a_with_max, a_empty; cong_tac ].
+Qed.
+
+Lemma fold_add_row_ref inf rs : forall l x, LInv l -> aeq (abs l) x ->
+  forallb (fun r => vec_ok None (snd r)) rs = true ->
+  aeq (abs (fold_left (fun l r => add_row inf r l) rs l)) (fold_left (fun x r => s_add_row inf r x) rs x).
+Proof.
+  induction rs as [|r t IH]; intros l x I A V; simpl in *; auto.
+  apply andb_true_iff in V. destruct V as [V1 V2]. apply vec_ok_nodup in V1. apply IH; auto.
+  - apply add_row_LInv; auto.
+  - eapply aeq_trans; [apply add_row_ref; auto|]. apply s_add_row_cong; auto.
+Qed.
+
+Lemma fold_add_col_ref inf cs : forall l x, LInv l -> aeq (abs l) x ->
+  forallb (fun c => vec_ok None (snd c)) cs = true ->
+  aeq (abs (fold_left (fun l c => add_col inf c l) cs l)) (fold_left (fun x c => s_add_col inf c x) cs x).
+Proof.
+  induction cs as [|c t IH]; intros l x I A V; simpl in *; auto.
+  apply andb_true_iff in V. destruct V as [V1 V2]. apply vec_ok_nodup in V1. apply IH; auto.
+  - apply add_col_LInv; auto.
+  - eapply aeq_trans; [apply add_col_ref; auto|]. apply s_add_col_cong; auto.
+Qed.
+
+(* every call commutes with the abstraction to the dense LP *)
+Lemma apply_refines s o : SInv s -> valid_op (nrows (L s)) (ncols (L s)) o = true ->
+  aeq (abs (fst (apply s o))) (spec_apply (inf s) (eps s) (pmax s) (abs (L s)) o).
+Proof.
+  intros [I EO] V. pose proof I as I0. destruct I as [M H1 H2 H3 H4 H5].
+  destruct o; simpl in V |- *;
+    repeat match goal with
+           | r : rowspec |- _ => destruct r as [[? ?] ?]
+           | c : colspec |- _ => destruct c as [[[? ?] ?] ?]
+           | H : _ && _ = true |- _ => apply andb_true_iff in H; destruct H
+           | H : (_ <? _) = true |- _ => apply Nat.ltb_lt in H
+           | H : (_ =? _) = true |- _ => apply Nat.eqb_eq in H
+           end;
+    first
+      [ apply add_row_ref; [solve [auto] | eapply vec_ok_nodup; solve [eauto]]
+      | apply fold_add_row_ref; [solve [auto] | apply aeq_refl | solve [auto]]
+      | apply add_col_ref; [solve [auto] | eapply vec_ok_nodup; solve [eauto]]
+      | apply fold_add_col_ref; [solve [auto] | apply aeq_refl | solve [auto]]
+      | apply change_row_ref; [solve [auto] | solve [auto] | eapply vec_ok_nodup; solve [eauto] | apply vec_ok_bound; solve [auto]]
+      | apply change_col_ref; [solve [auto] | solve [auto] | eapply vec_ok_nodup; solve [eauto] | apply vec_ok_bound; solve [auto]]
+      | apply change_elem_ref; solve [auto]
+      | apply remove_row_ref; solve [auto]
+      | apply remove_col_ref; solve [auto]
+      | apply remove_rows_ref; [solve [auto] | first [solve [auto] | apply idx_to_perm_length | apply range_to_perm_length]]
+      | apply remove_cols_ref; [solve [auto] | first [solve [auto] | apply idx_to_perm_length | apply range_to_perm_length]]
+      | idtac ].
+  all: unfold aeq, abs, uobj, nrows, ncols; simpl; repeat split; auto.
+  - unfold setn. apply map_upd. intros _. apply sgn_invol.
+  - rewrite map_map. rewrite <- (map_id vs) at 2. apply map_ext. intros. apply sgn_invol.
+  - intros i j. unfold dg. rewrite nth_nil_nil. reflexivity.
+  - destruct mx, (lmax (L s)); simpl; auto; rewrite map_map;
+      apply map_ext; intros; simpl; auto; rewrite ?dneg_invol; auto.
+Qed.
+
+(* ---------- whole histories ---------- *)
+Definition astate := (alp * bool)%type.
+Definition abs_state (s : state) : astate := (abs (L s), pmax s).
+Definition spec_step (inf eps : dbl) (a : astate) (o : op) : astate :=
+  (spec_apply inf eps (snd a) (fst a) o, match o with SetSense mx => mx | _ => snd a end).
+Definition spec_run (inf eps : dbl) (a : astate) (ops : list op) : astate := fold_left (spec_step inf eps) ops a.
+Definition aeqs (a b : astate) : Prop := aeq (fst a) (fst b) /\ snd a = snd b.
+
+Lemma step_L s o : L (fst (step s o)) = fst (apply s o).
+Proof. destruct o; simpl; auto; unfold step; destruct (apply s _) eqn:E; simpl; auto. Qed.
+
+Lemma step_pmax s o : pmax (fst (step s o)) = match o with SetSense mx => mx | _ => pmax s end.
+Proof. destruct o; simpl; auto; unfold step; destruct (apply s _); simpl; auto. Qed.
+
+Lemma step_consts s o : inf (fst (step s o)) = inf s /\ eps (fst (step s o)) = eps s.
+Proof. destruct o; simpl; auto; unfold step; destruct (apply s _); simpl; auto. Qed.
+
+Lemma step_refines s o : SInv s -> valid_op (nrows (L s)) (ncols (L s)) o = true ->
+  aeqs (abs_state (fst (step s o))) (spec_step (inf s) (eps s) (abs_state s) o).
+Proof.
+  intros I V. unfold aeqs, abs_state, spec_step. simpl. rewrite step_L, step_pmax. split; auto.
+  apply apply_refines; auto.
+Qed.
+
+Lemma spec_step_cong inf eps a b o : aeqs a b -> aeqs (spec_step inf eps a o) (spec_step inf eps b o).
+Proof.
+  intros [H1 H2]. unfold aeqs, spec_step. simpl. rewrite H2. split; auto. apply spec_apply_cong; auto.
+Qed.
+
+Lemma run_refines ops : forall s a, SInv s -> valid_run s ops = true -> aeqs (abs_state s) a ->
+  aeqs (abs_state (run s ops)) (spec_run (inf s) (eps s) a ops).
+Proof.
+  induction ops as [|o t IH]; intros s a I V A; simpl in *; auto.
+  apply andb_true_iff in V. destruct V as [V1 V2].
+  destruct (step_consts s o) as [E1 E2].
+  assert (aeqs (abs_state (fst (step s o))) (spec_step (inf s) (eps s) a o)) as A'.
+  { destruct (step_refines s o I V1) as [R1 R2]. destruct (spec_step_cong (inf s) (eps s) _ _ o A) as [C1 C2].
+    split.
+    + eapply aeq_trans; [exact R1 | exact C1].
+    + rewrite R2. exact C2. }
+  pose proof (IH (fst (step s o)) _ (step_SInv s o I V1) V2 A') as Q. rewrite E1, E2 in Q. exact Q.
+Qed.
+
+(* ---------- renumbering after a removal by permutation array / index list / range ---------- *)
+Lemma nth_fold_setn idx : forall (p : list Z) i, i < length p ->
+  nth i (fold_left (fun p k => setn k (-1)%Z p) idx p) (-1)%Z =
+  if existsb (Nat.eqb i) idx then (-1)%Z else nth i p (-1)%Z.
+Proof.
+  induction idx as [|k t IH]; intros p i H; simpl; auto.
+  rewrite IH by (rewrite setn_length; auto). unfold setn.
+  destruct (Nat.eqb_spec i k).
+  - subst. simpl. rewrite nth_upd_eq; auto. destruct (existsb (Nat.eqb k) t); auto.
+  - simpl. rewrite nth_upd_neq; auto.
+Qed.
+
+Lemma nth_map_seq {B} (f : nat -> B) n i d : i < n -> nth i (map f (seq 0 n)) d = f i.
+Proof.
+  intros H. rewrite (nth_indep _ d (f 0)) by (rewrite map_length, seq_length; auto).
+  rewrite map_nth, seq_nth; auto.
+Qed.
+
+Lemma idx_to_perm_spec n idx i : i < n ->
+  nth i (idx_to_perm n idx) (-1)%Z = if existsb (Nat.eqb i) idx then (-1)%Z else Z.of_nat i.
+Proof.
+  intros H. unfold idx_to_perm. rewrite nth_fold_setn by (rewrite map_length, seq_length; auto).
+  destruct (existsb (Nat.eqb i) idx); auto. apply nth_map_seq; auto.
+Qed.
+
+Lemma range_to_perm_spec n a b i : i < n ->
+  nth i (range_to_perm n a b) (-1)%Z = if (i <? a) || (b <? i) then Z.of_nat i else (-1)%Z.
+Proof.
+  intros H. unfold range_to_perm. rewrite nth_map_seq; auto.
+Qed.
+
+(* the documented meaning of the perm array, for rows *)
+Lemma remove_rows_spec perm l : LInv l -> length perm = nrows l ->
+  let l' := fst (remove_rows perm l) in
+  let np := snd (remove_rows perm l) in
+  length np = length perm /\
+  (* removed rows keep their negative mark *)
+  (forall i, (nth i perm (-1) < 0)%Z -> nth i np (-1)%Z = nth i perm (-1)%Z) /\
+  (* a surviving row is found at its new number: sides and row vector *)
+  (forall i, i < length perm -> (0 <= nth i perm (-1))%Z ->
+     exists q, nth i np (-1)%Z = Z.of_nat q /\ q < nrows l' /\
+               nth q (lhs l') dzero = nth i (lhs l) dzero /\ nth q (rhs l') dzero = nth i (rhs l) dzero /\
+               nth q (rf l') [] = nth i (rf l) []) /\
+  (* survivors keep their relative order *)
+  (forall i1 i2, i1 < i2 -> i2 < length perm -> (0 <= nth i1 perm (-1))%Z -> (0 <= nth i2 perm (-1))%Z ->
+     (nth i1 np (-1) < nth i2 np (-1))%Z) /\
+  (* nothing else is left *)
+  (forall q, q < nrows l' -> exists i, i < length perm /\ (0 <= nth i perm (-1))%Z /\ nth i np (-1)%Z = Z.of_nat q).
+Proof.
+  intros I HL. unfold remove_rows, remove_perm. simpl. destruct I as [M H1 H2 H3 H4 H5]. unfold nrows in *. simpl.
+  split; [apply newperm_length|]. split; [intros i; apply newperm_neg|]. split; [|split].
+  - intros i Hi Hp.
+    destruct (newperm_keep perm (rf l) 0%Z i [] HL Hi Hp) as [q [E1 [E2 E3]]].
+    destruct (newperm_keep perm (lhs l) 0%Z i dzero (eq_trans HL (eq_sym H1)) Hi Hp) as [q1 [F1 [F2 F3]]].
+    destruct (newperm_keep perm (rhs l) 0%Z i dzero (eq_trans HL (eq_sym H2)) Hi Hp) as [q2 [G1 [G2 G3]]].
+    assert (q1 = q) by lia. assert (q2 = q) by lia. subst q1 q2.
+    exists q. repeat split; auto.
+  - intros i1 i2. apply newperm_mono.
+  - intros q Hq. destruct (keep_from perm (rf l) 0%Z q HL Hq) as [i [E1 [E2 E3]]]. exists i. auto.
+Qed.
+
+(* the same for columns *)
+Lemma remove_cols_spec perm l : LInv l -> length perm = ncols l ->
+  let l' := fst (remove_cols perm l) in
+  let np := snd (remove_cols perm l) in
+  length np = length perm /\
+  (forall j, (nth j perm (-1) < 0)%Z -> nth j np (-1)%Z = nth j perm (-1)%Z) /\
+  (forall j, j < length perm -> (0 <= nth j perm (-1))%Z ->
+     exists q, nth j np (-1)%Z = Z.of_nat q /\ q < ncols l' /\
+               nth q (obj l') dzero = nth j (obj l) dzero /\ nth q (lo l') dzero = nth j (lo l) dzero /\
+               nth q (up l') dzero = nth j (up l) dzero /\ nth q (cf l') [] = nth j (cf l) []) /\
+  (forall j1 j2, j1 < j2 -> j2 < length perm -> (0 <= nth j1 perm (-1))%Z -> (0 <= nth j2 perm (-1))%Z ->
+     (nth j1 np (-1) < nth j2 np (-1))%Z) /\
+  (forall q, q < ncols l' -> exists j, j < length perm /\ (0 <= nth j perm (-1))%Z /\ nth j np (-1)%Z = Z.of_nat q).
+Proof.
+  intros I HL. unfold remove_cols, remove_perm. simpl. destruct I as [M H1 H2 H3 H4 H5]. unfold ncols in *. simpl.
+  split; [apply newperm_length|]. split; [intros i; apply newperm_neg|]. split; [|split].
+  - intros i Hi Hp.
+    destruct (newperm_keep perm (cf l) 0%Z i [] HL Hi Hp) as [q [E1 [E2 E3]]].
+    destruct (newperm_keep perm (obj l) 0%Z i dzero (eq_trans HL (eq_sym H3)) Hi Hp) as [q1 [F1 [F2 F3]]].
+    destruct (newperm_keep perm (lo l) 0%Z i dzero (eq_trans HL (eq_sym H4)) Hi Hp) as [q2 [G1 [G2 G3]]].
+    destruct (newperm_keep perm (up l) 0%Z i dzero (eq_trans HL (eq_sym H5)) Hi Hp) as [q3 [K1 [K2 K3]]].
+    assert (q1 = q) by lia. assert (q2 = q) by lia. assert (q3 = q) by lia. subst q1 q2 q3.
+    exists q. repeat split; auto.
+  - intros i1 i2. apply newperm_mono.
+  - intros q Hq. destruct (keep_from perm (cf l) 0%Z q HL Hq) as [i [E1 [E2 E3]]]. exists i. auto.
+Qed.
+
+(* removal by index list / by range hands back -1 for the removed elements *)
+Lemma idx_removed_minus_one n idx i : i < n -> existsb (Nat.eqb i) idx = true ->
+  nth i (newperm (idx_to_perm n idx) 0) (-1)%Z = (-1)%Z.
+Proof.
+  intros H E. rewrite newperm_neg; rewrite idx_to_perm_spec, E; auto. lia.
+Qed.
+
+Lemma range_removed_minus_one n a b i : i < n -> a <= i -> i <= b ->
+  nth i (newperm (range_to_perm n a b) 0) (-1)%Z = (-1)%Z.
+Proof.
+  intros H Ha Hb. assert ((i <? a) || (b <? i) = false) as E.
+  { apply orb_false_iff. split; apply Nat.ltb_ge; auto. }
+  rewrite newperm_neg; rewrite range_to_perm_spec, E; auto. lia.
+Qed.
+
+(* ---------- single removal: the last element moves into the hole ---------- *)
+Lemma remove_row_moves_last i l : LInv l -> i < nrows l ->
+  let l' := remove_row i l in
+  nrows l' = nrows l - 1 /\ ncols l' = ncols l /\
+  (forall k, k < nrows l - 1 -> k <> i ->
+     nth k (lhs l') dzero = nth k (lhs l) dzero /\ nth k (rhs l') dzero = nth k (rhs l) dzero /\
+     nth k (rf l') [] = nth k (rf l) []) /\
+  (i < nrows l - 1 ->
+     nth i (lhs l') dzero = nth (nrows l - 1) (lhs l) dzero /\ nth i (rhs l') dzero = nth (nrows l - 1) (rhs l) dzero /\
+     nth i (rf l') [] = nth (nrows l - 1) (rf l) []) /\
+  obj l' = obj l /\ lo l' = lo l /\ up l' = up l.
+Proof.
+  intros I HI. unfold remove_row. assert (i <? nrows l = true) as -> by (apply Nat.ltb_lt; auto).
+  pose proof (remove1_Mir (rf l) (cf l) i (li_mir _ I) HI) as H.
+  destruct (remove1 (rf l) (cf l) i) as [P S]. simpl in H. destruct H as [M [EP ES]].
+  destruct I as [M0 H1 H2 H3 H4 H5]. unfold nrows, ncols in *. simpl. subst P.
+  split; [apply move_last_length; auto|]. split; auto. split; [|split; auto].
+  - intros k Hk Hn. rewrite !nth_move_last by lia. rewrite H1, H2.
+    destruct (Nat.leb_spec (length (rf l) - 1) k); try lia. destruct (Nat.eqb_spec k i); try lia. auto.
+  - intros Hk. rewrite !nth_move_last by lia. rewrite H1, H2.
+    destruct (Nat.leb_spec (length (rf l) - 1) i); try lia. rewrite Nat.eqb_refl. auto.
+Qed.
+
+Lemma remove_col_moves_last j l : LInv l -> j < ncols l ->
+  let l' := remove_col j l in
+  ncols l' = ncols l - 1 /\ nrows l' = nrows l /\
+  (forall k, k < ncols l - 1 -> k <> j ->
+     nth k (obj l') dzero = nth k (obj l) dzero /\ nth k (lo l') dzero = nth k (lo l) dzero /\
+     nth k (up l') dzero = nth k (up l) dzero /\ nth k (cf l') [] = nth k (cf l) []) /\
+  (j < ncols l - 1 ->
+     nth j (obj l') dzero = nth (ncols l - 1) (obj l) dzero /\ nth j (lo l') dzero = nth (ncols l - 1) (lo l) dzero /\
+     nth j (up l') dzero = nth (ncols l - 1) (up l) dzero /\ nth j (cf l') [] = nth (ncols l - 1) (cf l) []) /\
+  lhs l' = lhs l /\ rhs l' = rhs l.
+Proof.
+  intros I HI. unfold remove_col. assert (j <? ncols l = true) as -> by (apply Nat.ltb_lt; auto).
+  pose proof (remove1_Mir (cf l) (rf l) j (Mir_sym _ _ (li_mir _ I)) HI) as H.
+  destruct (remove1 (cf l) (rf l) j) as [P S]. simpl in H. destruct H as [M [EP ES]].
+  destruct I as [M0 H1 H2 H3 H4 H5]. unfold nrows, ncols in *. simpl. subst P.
+  split; [apply move_last_length; auto|]. split; auto. split; [|split; auto].
+  - intros k Hk Hn. rewrite !nth_move_last by lia. rewrite H3, H4, H5.
+    destruct (Nat.leb_spec (length (cf l) - 1) k); try lia. destruct (Nat.eqb_spec k j); try lia. auto.
+  - intros Hk. rewrite !nth_move_last by lia. rewrite H3, H4, H5.
+    destruct (Nat.leb_spec (length (cf l) - 1) j); try lia. rewrite Nat.eqb_refl. auto.
+Qed.
+
+(* ---------- the sense of the LP is the OBJSENSE parameter ---------- *)
+Lemma add_row_lmax inf r l : lmax (add_row inf r l) = lmax l.
+Proof. destruct r as [[a b] v]. reflexivity. Qed.
+Lemma add_col_lmax inf c l : lmax (add_col inf c l) = lmax l.
+Proof. destruct c as [[[o a] b] v]. reflexivity. Qed.
+
+Lemma fold_add_row_lmax inf rs : forall l, lmax (fold_left (fun l r => add_row inf r l) rs l) = lmax l.
+Proof. induction rs as [|r t IH]; intros l; simpl; auto. rewrite IH. apply add_row_lmax. Qed.
+Lemma fold_add_col_lmax inf cs : forall l, lmax (fold_left (fun l c => add_col inf c l) cs l) = lmax l.
+Proof. induction cs as [|c t IH]; intros l; simpl; auto. rewrite IH. apply add_col_lmax. Qed.
+
+Lemma apply_lmax s o : lmax (fst (apply s o)) =
+  match o with SetSense mx => mx | ClearLP => pmax s | _ => lmax (L s) end.
+Proof.
+  destruct o; simpl; auto;
+    repeat match goal with
+           | r : rowspec |- _ => destruct r as [[? ?] ?]
+           | c : colspec |- _ => destruct c as [[[? ?] ?] ?]
+           end; auto.
+  all: try apply fold_add_row_lmax; try apply fold_add_col_lmax;
+    unfold change_row, change_col, replace_vec, change_elem, set_entry, remove_row, remove_col, remove_rows, remove_cols, remove_perm;
+    repeat match goal with
+           | |- context [fill ?k ?v ?ps] => destruct (fill k v ps)
+           | |- context [if ?b then _ else _] => destruct b
+           end; reflexivity.
+Qed.
+
+Lemma step_sense_sync s o : lmax (L s) = pmax s -> lmax (L (fst (step s o))) = pmax (fst (step s o)).
+Proof.
+  intros H. rewrite step_L, step_pmax, apply_lmax. destruct o; auto.
+Qed.
+
+Lemma run_sense_sync ops : forall s, lmax (L s) = pmax s -> lmax (L (run s ops)) = pmax (run s ops).
+Proof. induction ops as [|o t IH]; intros s H; simpl; auto. apply IH. apply step_sense_sync; auto. Qed.
+
+(* clearLPReal as coded breaks it *)
+Lemma clear_as_coded_desync : exists s, lmax (L s) = pmax s /\ lmax (L (clear_as_coded s)) <> pmax (clear_as_coded s).
+Proof. exists (init false dzero dzero). simpl. split; auto. discriminate. Qed.
+
+(* ---------- corollaries in the form the property file states them ---------- *)
+Lemma run_LInv_from_empty mx eps inf ops : eps_ok eps = true -> valid_run (init mx eps inf) ops = true ->
+  LInv (L (run (init mx eps inf) ops)).
+Proof. intros E V. exact (proj1 (run_SInv ops _ (init_SInv mx eps inf E) V)). Qed.
+
+Lemma step_refines_L s o : SInv s -> valid_op (nrows (L s)) (ncols (L s)) o = true ->
+  aeq (abs (L (fst (step s o)))) (spec_apply (inf s) (eps s) (pmax s) (abs (L s)) o).
+Proof. intros I V. rewrite step_L. exact (apply_refines s o I V). Qed.
+
+Lemma run_refines_self ops s : SInv s -> valid_run s ops = true ->
+  aeqs (abs_state (run s ops)) (spec_run (inf s) (eps s) (abs_state s) ops).
+Proof. intros I V. exact (run_refines ops s (abs_state s) I V (conj (aeq_refl _) eq_refl)). Qed.
